@@ -5,8 +5,9 @@ import ast
 
 from ..core import Ctx
 
-from ..match import Fact, arg, call_name, calls, fact_of, facts_at, is_param, local_defs, resolve, single_def, stores
-from ..model import AnalysisError, FuncInfo, chain, const_value, enclosing_stmt, norm, strip_cast, walk_no_nested
+from ..localnames import load_table
+from ..match import Fact, arg, call_name, calls, fact_of, facts_at, is_param, local_defs, rchain, resolve, single_def, stores
+from ..model import AnalysisError, FuncInfo, chain, clone, const_value, enclosing_stmt, norm, set_parents, strip_cast, walk_no_nested
 
 LEVEL = "other"
 EXPLANATION = (
@@ -16,8 +17,10 @@ EXPLANATION = (
     "the socket and its task manager; destroy is forwarded on exactly the far side; join limit; relay_early budget on the "
     "relay and the originator (decided on the CFG under the assumption 'flag set and budget used up', so extra conjuncts are "
     "seen); the build retry count strictly decreases and gives up by removing the circuit, and the retry cache is released "
-    "only for a READY circuit, after the hop's answer was verified, or when a new one is armed / the circuit removed. The time "
-    "bound itself and loss patterns are not explored (timers/schedules)."
+    "only for a READY circuit, after the hop's answer was verified, or when a new one is armed / the circuit removed; entries leave "
+    "exit_sockets only through remove_exit_socket (the one place that closes the outside sockets). Conditions are decided on the "
+    "CFG under assumptions (any spelling, aliases, decide-then-act, helpers, unrolled literal loops). The time bound itself and loss "
+    "patterns are not explored (timers/schedules)."
 )
 
 TC = "ipv8/messaging/anonymization/community.py"
@@ -80,11 +83,71 @@ def _expand_text(fi: FuncInfo, text: str) -> str:
     return _texts(fi, ast.parse(text, mode="eval").body)[-1] if text else text
 
 
-def _K(op: str, left: str, right: str = "") -> tuple[str, str, str]:
-    """Canonical key of an atomic condition; `eq` is symmetric, `lt` is `left < right` (match.fact_of orientation)."""
+class _Key(tuple):
+    """Canonical key of an atomic condition (a plain tuple for dict lookups) that remembers how it was declared."""
+    raw = None          # (op, left text, right text, integer)
+    flip = None         # for `lt`: the key of the opposite strict inequality shifted by one (equivalent over the integers)
+
+
+def _parse(text: str):
+    try:
+        return ast.parse(text, mode="eval").body
+    except SyntaxError:
+        return None
+
+
+def _lin(e: ast.AST, sign: int, terms: dict, k: list) -> None:
+    """e as a signed sum: terms[text] += sign, numeric constants are added up in k[0]."""
+    e = strip_cast(e)
+    if isinstance(e, ast.BinOp) and isinstance(e.op, (ast.Add, ast.Sub)):
+        _lin(e.left, sign, terms, k)
+        _lin(e.right, sign if isinstance(e.op, ast.Add) else -sign, terms, k)
+        return
+    if isinstance(e, ast.UnaryOp) and isinstance(e.op, (ast.USub, ast.UAdd)):
+        _lin(e.operand, -sign if isinstance(e.op, ast.USub) else sign, terms, k)
+        return
+    if isinstance(e, ast.Constant) and isinstance(e.value, (int, float)) and not isinstance(e.value, bool):
+        k[0] += sign * e.value
+        return
+    t = norm(e)
+    if t == "time()":
+        t = "time.time()"
+    terms[t] = terms.get(t, 0) + sign
+
+
+def _canon_sum(terms: dict, k) -> tuple[str, str]:
+    if isinstance(k, float) and k.is_integer():
+        k = int(k)
+    return "".join(f"{c:+d}*{t}" for t, c in sorted(terms.items()) if c), repr(k)
+
+
+def _lt_keys(le: ast.AST, re_: ast.AST):
+    """`le < re_` as `sum + k < 0` (so a < b, b > a, 0 < b - a, a - b < 0 ... share one key) and its integer twin."""
+    terms: dict = {}
+    k = [0]
+    _lin(le, 1, terms, k)
+    _lin(re_, -1, terms, k)
+    return ("lt", *_canon_sum(terms, k[0])), ("lt", *_canon_sum({t: -c for t, c in terms.items()}, -k[0] - 1))
+
+
+def _K(op: str, left: str, right: str = "", integer: bool = False) -> tuple[str, str, str]:
+    """
+    Canonical key of an atomic condition; `eq` is symmetric, `lt` is `left < right` (match.fact_of orientation) brought to
+    the form `signed sum < 0`.  integer=True declares both sides integer-valued: then `not (S + k < 0)` is the same
+    condition as `-S - k - 1 < 0` (`n < 1` / `n <= 0` / `not n > 0`), which _World uses to recognise either spelling.
+    """
+    flip = None
     if op == "eq":
-        left, right = sorted((left, right))
-    return (op, left, right)
+        l2, r2 = sorted((left, right))
+        key = (op, l2, r2)
+    elif op == "lt" and _parse(left) is not None and _parse(right) is not None:
+        key, flip = _lt_keys(_parse(left), _parse(right))
+    else:
+        key = (op, left, right)
+    out = _Key(key)
+    out.raw = (op, left, right, integer)
+    out.flip = flip
+    return out
 
 
 def _keys(fi: FuncInfo, atom: ast.AST) -> list[tuple[tuple[str, str, str], bool]]:
@@ -96,6 +159,20 @@ def _keys(fi: FuncInfo, atom: ast.AST) -> list[tuple[tuple[str, str, str], bool]
             k = (_K(f.op, l, r), f.pos)
             if k not in out:
                 out.append(k)
+            # emptiness of a sized object spelled through len(): len(x) == 0, len(x) > 0, len(x) < 1, len(x) ...
+            for a, b, flip in ((l, r, False), (r, l, True)):
+                if not (a.startswith("len(") and a.endswith(")") and _parse(a) is not None and isinstance(_parse(a), ast.Call) and len(_parse(a).args) == 1):
+                    continue
+                x = norm(_parse(a).args[0])
+                k2 = None
+                if f.op == "truthy" and not flip:
+                    k2 = (_K("truthy", x), f.pos)
+                elif f.op == "eq" and b == "0":
+                    k2 = (_K("truthy", x), not f.pos)
+                elif f.op == "lt" and (not flip and b == "1" or flip and b == "0"):   # len(x) < 1  /  0 < len(x)
+                    k2 = (_K("truthy", x), not f.pos if not flip else f.pos)
+                if k2 is not None and k2 not in out:
+                    out.append(k2)
     return out
 
 
@@ -112,10 +189,19 @@ class _World:
     definitely has the other value, so reachability here over-approximates the runs that satisfy the assumption.
     """
 
-    def __init__(self, fi: FuncInfo, cfg, assume: dict) -> None:
-        self.fi, self.cfg, self.assume = fi, cfg, dict(assume)
-        for (op, l, r), v in assume.items():                        # the same keys with this function's aliases expanded
-            self.assume.setdefault(_K(op, _expand_text(fi, l), _expand_text(fi, r)), v)
+    def __init__(self, fi: FuncInfo, cfg, assume: dict, pinned=()) -> None:
+        self.fi, self.cfg, self.assume = fi, cfg, {}
+        # pinned: CFG nodes (loop heads) whose bindings the assumption talks about ("for the entry of this iteration")
+        self.pinned = set(pinned)
+        for key, v in assume.items():
+            variants = [key]
+            raw = getattr(key, "raw", None)
+            if raw is not None:                                     # the same key with this function's aliases expanded
+                variants.append(_K(raw[0], _expand_text(fi, raw[1]), _expand_text(fi, raw[2]), raw[3]))
+            for kk in variants:
+                self.assume.setdefault(tuple(kk), v)
+                if raw is not None and raw[3] and getattr(kk, "flip", None) is not None:
+                    self.assume.setdefault(tuple(kk.flip), not v)
         self._memo: dict = {}
         self._defs: dict = {}
 
@@ -178,8 +264,12 @@ class _World:
                 continue
             if isinstance(x, ast.Name) and not is_param(self.fi, c) and len(self.defs(c)) == 1:
                 continue                                            # one binding: every use sees the same definition
-            for d in self._def_nodes(c):
-                if d is not node and node in self.cfg.reach([v for v, lab in d.succ if lab != "exc"]):
+            dn = self._def_nodes(c)
+            kill = (dn & self.pinned) - {node}                      # the pinned binding hides every earlier one
+            for d in dn:
+                if d is node or d in self.pinned:
+                    continue
+                if node in self.cfg.reach([v for v, lab in d.succ if lab != "exc"], cut_nodes=kill):
                     return False
         return True
 
@@ -194,6 +284,22 @@ class _World:
         e = strip_cast(e)
         if isinstance(e, ast.Constant):
             return {bool(e.value)}
+        if isinstance(e, (ast.Tuple, ast.List, ast.Set)):
+            return {bool(e.elts)}
+        if isinstance(e, ast.Dict):
+            return {bool(e.keys)}
+        if isinstance(e, ast.Compare) and len(e.ops) == 1 and isinstance(e.ops[0], (ast.Is, ast.IsNot, ast.Eq, ast.NotEq)):
+            # a local compared with a constant (`verdict is not None`, `tag == 'idle'`): decided from what was assigned to it
+            l, r = strip_cast(e.left), strip_cast(e.comparators[0])
+            var, cst = (l, r) if isinstance(r, ast.Constant) else (r, l) if isinstance(l, ast.Constant) else (None, None)
+            if isinstance(var, ast.Name) and self.defs(var.id):
+                neg = isinstance(e.ops[0], (ast.IsNot, ast.NotEq))
+                out = set()
+                for av in (self._absvals(var, node, depth) if deep and depth < 4 else {None}):
+                    v = self._cmp_abs(av, cst.value)
+                    out.add(None if v is None else (not v if neg else v))
+                if out and None not in out:
+                    return out                                      # otherwise: the comparison may still be an assumed atom
         if isinstance(e, ast.UnaryOp) and isinstance(e.op, ast.Not):
             return {None if v is None else not v for v in self.ev(e.operand, node, deep, depth)}
         if isinstance(e, ast.BoolOp):
@@ -223,21 +329,543 @@ class _World:
             return {None}
         return {self.atom(e)}
 
-    def _reaching(self, c: str, e: ast.AST, node, depth: int) -> set:
+    def _rdefs(self, c: str, node, cut):
+        """(value on entry reaches node, [(definition node, value expr | None)] reaching node) under the edge filter `cut`."""
         dn = self._def_nodes(c)
         cutn = dn - {node}
-        out = set()
-        if node in self.cfg.reach(cut_nodes=cutn, cut_edge=self.cut_direct) and ("." in c or is_param(self.fi, c)):
-            out.add(self.atom(e))                                   # value on entry
-        live = self.cfg.reach(cut_edge=self.cut_direct)
+        entry = node in self.cfg.reach(cut_nodes=cutn, cut_edge=cut)
+        live = self.cfg.reach(cut_edge=cut)
+        out = []
         for st, val in self.defs(c):
             for d in self.cfg.nodes_for(st):
                 if d not in live:
                     continue                                        # this definition is not executed under the assumption
                 starts = [v for v, lab in d.succ if lab != "exc"]
-                if node in starts or node in self.cfg.reach(starts, cut_nodes=cutn, cut_edge=self.cut_direct):
-                    out |= {None} if val is None else self.ev(val, d, True, depth + 1)
+                if node in starts or node in self.cfg.reach(starts, cut_nodes=cutn, cut_edge=cut):
+                    out.append((d, val))
+        return entry, out
+
+    def _reaching(self, c: str, e: ast.AST, node, depth: int) -> set:
+        entry, ds = self._rdefs(c, node, self.cut_direct)
+        out = set()
+        if entry and ("." in c or is_param(self.fi, c)):
+            out.add(self.atom(e))                                   # value on entry
+        for d, val in ds:
+            out |= {None} if val is None else self.ev(val, d, True, depth + 1)
         return out or {None}
+
+    def value_at(self, c: str, e: ast.AST, node) -> set:
+        """Truth values the chain c (`cell.relay_early`) can have when `node` runs, under the assumption (all conditions decided deeply)."""
+        entry, ds = self._rdefs(c, node, self.cut)
+        out = set()
+        if entry:
+            out.add(self.atom(e))
+        for d, val in ds:
+            out |= {None} if val is None else self.ev(val, d, True, 1)
+        return out or {None}
+
+    # -- abstract values of locals: constants, non-empty / empty literals, "some object"
+    def _absvals(self, e: ast.AST, node, depth: int) -> set:
+        e = strip_cast(e)
+        if isinstance(e, ast.Constant):
+            return {("c", e.value)}
+        if isinstance(e, (ast.Tuple, ast.List, ast.Set)):
+            return {("t",) if e.elts else ("f",)}
+        if isinstance(e, ast.Dict):
+            return {("t",) if e.keys else ("f",)}
+        if isinstance(e, (ast.JoinedStr, ast.ListComp, ast.SetComp, ast.DictComp, ast.GeneratorExp, ast.Lambda)):
+            return {("n",)}
+        if isinstance(e, ast.IfExp):
+            t = self.ev(e.test, node, True, depth)
+            out = set()
+            if t - {False}:
+                out |= self._absvals(e.body, node, depth)
+            if t - {True}:
+                out |= self._absvals(e.orelse, node, depth)
+            return out
+        if isinstance(e, ast.Name) and self.defs(e.id) and depth < 4:
+            entry, ds = self._rdefs(e.id, node, self.cut_direct)
+            out = {None} if entry else set()
+            for d, val in ds:
+                out |= {None} if val is None else self._absvals(val, d, depth + 1)
+            return out or {None}
+        return {None}
+
+    @staticmethod
+    def _cmp_abs(av, cv):
+        """Is the abstract value equal to / identical with the constant cv?  (None = unknown)"""
+        if av is None:
+            return None
+        if av[0] == "c":
+            v = av[1]
+            if v is None or cv is None or isinstance(v, bool) or isinstance(cv, bool):
+                return v is cv
+            return type(v) is type(cv) and v == cv
+        return False if cv is None or isinstance(cv, (bool, int, float, str, bytes)) else None
+
+
+# ------------------------------------------------------------------------------------ new helpers / closed sets
+def _private(fi: FuncInfo) -> bool:
+    return fi.name.startswith("_") and not (fi.name.startswith("__") and fi.name.endswith("__"))
+
+
+def _is_new(fi: FuncInfo) -> bool:
+    """fi does not exist in the reviewed tree (sa/tables/local_names.json lists every reviewed function)."""
+    known = load_table().get(fi.module.relpath)
+    return known is not None and fi.qualname not in known
+
+
+def _within(fi: FuncInfo, allowed) -> bool:
+    return any(fi.qualname == a or fi.qualname.startswith(a + ".") for a in allowed)
+
+
+def _only_reached_from(repo, fi: FuncInfo, allowed, _seen=None) -> bool:
+    """
+    fi is a NEW private helper (or closure) and every place that calls it or mentions it as a value lies in an allowed
+    function, or in another such helper: what fi does is done on behalf of the allowed members only.
+    """
+    if _within(fi, allowed):
+        return True
+    nested = "." in fi.qualname and (fi.cls is None or fi.qualname.count(".") > 1)
+    if not _is_new(fi) or not (_private(fi) or nested):
+        return False
+    seen = set() if _seen is None else _seen
+    if fi.qualname in seen:
+        return True
+    seen.add(fi.qualname)
+    users = []
+    for m, g, c in repo.callers_of_name(fi.name):
+        users.append(g)
+    for m, g, a in repo.attribute_uses(fi.name):
+        users.append(g)
+    if nested:
+        for g in fi.module.all_functions:
+            if g is not fi and any(isinstance(n, ast.Name) and n.id == fi.name for n in ast.walk(g.node)) and fi.qualname.startswith(g.qualname + "."):
+                users.append(g)
+    users = [g for g in users if g is None or g.node is not fi.node]
+    if not users:
+        return False
+    return all(g is not None and (_within(g, allowed) or _only_reached_from(repo, g, allowed, seen)) for g in users)
+
+
+def _new_helper_targets(repo, fi: FuncInfo, call: ast.Call) -> list[FuncInfo]:
+    """The NEW private helper(s) a call `self._x(...)` / `_x(...)` made in fi denotes (all targets must be new helpers)."""
+    f = call.func
+    if not (isinstance(f, ast.Name) or isinstance(f, ast.Attribute) and isinstance(f.value, ast.Name) and f.value.id in ("self", "cls")):
+        return []
+    try:
+        ts = repo.resolve_call(fi, call)
+    except Exception:  # noqa: BLE001
+        return []
+    ts = [t for t in ts if t.node is not fi.node]
+    if ts and all(_is_new(t) for t in ts):
+        return ts
+    return []
+
+
+def _bind_args(g: FuncInfo, call: ast.Call) -> dict[str, ast.AST]:
+    """parameter name of g -> argument expression of the call (positional and keyword; self is skipped for methods)."""
+    ps = g.params()
+    if g.cls is not None and ps and ps[0] in ("self", "cls") and "staticmethod" not in g.decorator_names():
+        ps = ps[1:]
+    out = {}
+    for i, a in enumerate(call.args):
+        if isinstance(a, ast.Starred) or i >= len(ps):
+            break
+        out[ps[i]] = a
+    for k in call.keywords:
+        if k.arg is not None:
+            out[k.arg] = k.value
+    return out
+
+
+def _passes_always(ctx: Ctx, fi: FuncInfo, is_target, depth: int = 2, cut_edge=None, _stack=()) -> list:
+    """
+    CFG nodes of fi that count as "the step happens here": calls satisfying is_target(fi, call), and calls of own
+    methods / local functions every normal path of which passes such a node (followed `depth` levels).
+    """
+    cfg = ctx.cfg(fi)
+    out = []
+    for c in calls(fi):
+        if is_target(fi, c):
+            out.extend(cfg.nodes_for(c))
+            continue
+        if depth <= 0:
+            continue
+        f = c.func
+        if not (isinstance(f, ast.Attribute) and isinstance(f.value, ast.Name) and f.value.id == "self" or isinstance(f, ast.Name)):
+            continue
+        if isinstance(f, ast.Name) and f.id in ("len", "list", "tuple", "sorted", "dict", "set", "cast", "str", "int", "float", "bool", "isinstance", "hexlify", "sleep", "print", "min", "max", "sum", "any", "all", "range", "enumerate", "zip", "getattr", "setattr", "hasattr", "next", "iter", "repr", "type", "id"):
+            continue
+        try:
+            ts = ctx.repo.resolve_call(fi, c)
+        except Exception:  # noqa: BLE001
+            ts = []
+        ts = [_view(ctx, t) for t in ts]
+        if not ts or any(t.qualname in _stack or t.node is fi.node for t in ts):
+            continue
+        if any(any(isinstance(n, (ast.Yield, ast.YieldFrom)) for n in walk_no_nested(t.node)) for t in ts):
+            continue                                               # calling a generator function runs nothing
+        if all(_always_passes(ctx, t, is_target, depth - 1, _stack + (fi.qualname,)) for t in ts):
+            out.extend(cfg.nodes_for(c))
+    return out
+
+
+def _always_passes(ctx: Ctx, fi: FuncInfo, is_target, depth: int = 2, _stack=()) -> bool:
+    cfg = ctx.cfg(fi)
+    tg = _passes_always(ctx, fi, is_target, depth, _stack=_stack)
+    return bool(tg) and cfg.exit not in cfg.reach(cut_nodes=tg, follow_exc=False)
+
+
+# ------------------------------------------------------------------------------------ unrolled view of a function
+_SIMPLE_CALLS = ("getattr", "setattr")
+
+
+def _simple_elt(e: ast.AST, consts_only: bool = False) -> bool:
+    if isinstance(e, ast.Constant):
+        return True
+    if isinstance(e, (ast.Tuple, ast.List)):
+        return all(_simple_elt(x, consts_only) for x in e.elts)
+    if isinstance(e, ast.Dict):
+        return all(k is not None and isinstance(k, ast.Constant) and _simple_elt(v, consts_only) for k, v in zip(e.keys, e.values))
+    if consts_only:
+        return False
+    while isinstance(e, ast.Attribute):
+        e = e.value
+    return isinstance(e, ast.Name)
+
+
+def _literal_elts(repo, fi: FuncInfo, it: ast.AST):
+    """Elements of a loop iterable that is a literal tuple / list / dict view (directly, through a single-assignment local or a constant)."""
+    it = strip_cast(it)
+    if isinstance(it, ast.Name):
+        d = single_def(fi, it.id)
+        if d is not None and d[1] is None and isinstance(strip_cast(d[0]), ast.Tuple):
+            it = strip_cast(d[0])
+        elif d is None and not is_param(fi, it.id) and not local_defs(fi, it.id):
+            r = repo.resolve_name(fi.module, it.id)
+            if isinstance(r, tuple) and r[0] == "const" and isinstance(r[2], (ast.Tuple, ast.List)) and _simple_elt(r[2], True):
+                return list(r[2].elts)
+            return None
+    if isinstance(it, ast.Attribute) and isinstance(it.value, ast.Name) and it.value.id in ("self", "cls") and fi.cls is not None:
+        v = fi.cls.lookup_attr(it.attr)
+        if isinstance(v, (ast.Tuple, ast.List)) and _simple_elt(v, True) and not any(True for _ in stores_anywhere(repo, it.attr)):
+            return list(v.elts)
+        return None
+    if isinstance(it, (ast.Tuple, ast.List)):
+        return list(it.elts) if all(_simple_elt(x) for x in it.elts) and not any(isinstance(x, ast.Starred) for x in it.elts) else None
+    if isinstance(it, ast.Call) and isinstance(it.func, ast.Attribute) and not it.args and isinstance(it.func.value, ast.Dict) and _simple_elt(it.func.value):
+        d = it.func.value
+        if it.func.attr == "items":
+            return [ast.Tuple(elts=[k, v], ctx=ast.Load()) for k, v in zip(d.keys, d.values)]
+        if it.func.attr == "values":
+            return list(d.values)
+        if it.func.attr == "keys":
+            return list(d.keys)
+    if isinstance(it, ast.Dict) and _simple_elt(it):
+        return list(it.keys)
+    return None
+
+
+def stores_anywhere(repo, attr: str):
+    for m, g, a in repo.attribute_uses(attr):
+        if isinstance(a.ctx, (ast.Store, ast.Del)) and not (g is not None and g.name == "__init__"):
+            yield a
+
+
+def _bind_target(t: ast.AST, e: ast.AST, out: dict) -> bool:
+    if isinstance(t, ast.Name):
+        out[t.id] = e
+        return True
+    if isinstance(t, (ast.Tuple, ast.List)) and isinstance(e, (ast.Tuple, ast.List)) and len(t.elts) == len(e.elts):
+        return all(_bind_target(a, b, out) for a, b in zip(t.elts, e.elts))
+    return False
+
+
+class _Subst(ast.NodeTransformer):
+    def __init__(self, mapping: dict) -> None:
+        self.mapping = mapping
+
+    def visit_Name(self, n: ast.Name):
+        if isinstance(n.ctx, ast.Load) and n.id in self.mapping:
+            return ast.copy_location(clone(self.mapping[n.id]), n)
+        return n
+
+
+class _FoldDyn(ast.NodeTransformer):
+    """getattr(x, 'a') -> x.a ; setattr(x, 'a', v) -> x.a = v ; f(**{'k': v}) -> f(k=v) ; {'a': f}['a'] -> f"""
+
+    def __init__(self, has_attr) -> None:
+        self.has_attr = has_attr
+        self.changed = False
+
+    def visit_Call(self, n: ast.Call):
+        self.generic_visit(n)
+        if isinstance(n.func, ast.Name) and n.func.id == "getattr" and not n.keywords and len(n.args) in (2, 3) \
+                and isinstance(n.args[1], ast.Constant) and isinstance(n.args[1].value, str) and n.args[1].value.isidentifier() \
+                and (len(n.args) == 2 or self.has_attr(n.args[0], n.args[1].value)):
+            self.changed = True
+            return ast.copy_location(ast.Attribute(value=n.args[0], attr=n.args[1].value, ctx=ast.Load()), n)
+        if any(k.arg is None and isinstance(k.value, ast.Dict) for k in n.keywords):
+            kws = []
+            for k in n.keywords:
+                if k.arg is None and isinstance(k.value, ast.Dict) and all(isinstance(x, ast.Constant) and isinstance(x.value, str) for x in k.value.keys):
+                    kws.extend(ast.keyword(arg=x.value, value=v) for x, v in zip(k.value.keys, k.value.values))
+                    self.changed = True
+                else:
+                    kws.append(k)
+            n.keywords = kws
+        return n
+
+    def visit_Subscript(self, n: ast.Subscript):
+        self.generic_visit(n)
+        if isinstance(n.ctx, ast.Load) and isinstance(n.value, ast.Dict) and isinstance(n.slice, ast.Constant):
+            for k, v in zip(n.value.keys, n.value.values):
+                if isinstance(k, ast.Constant) and k.value == n.slice.value and type(k.value) is type(n.slice.value):
+                    self.changed = True
+                    return v
+        return n
+
+    def visit_Expr(self, n: ast.Expr):
+        self.generic_visit(n)
+        c = n.value
+        if isinstance(c, ast.Call) and isinstance(c.func, ast.Name) and c.func.id == "setattr" and len(c.args) == 3 and not c.keywords \
+                and isinstance(c.args[1], ast.Constant) and isinstance(c.args[1].value, str) and c.args[1].value.isidentifier():
+            self.changed = True
+            return ast.copy_location(ast.Assign(targets=[ast.Attribute(value=c.args[0], attr=c.args[1].value, ctx=ast.Store())],
+                                                value=c.args[2], type_comment=None), n)
+        return n
+
+
+def _own_loop_jumps(body) -> bool:
+    """break / continue that belong to the loop whose body this is"""
+    stack = list(body)
+    while stack:
+        n = stack.pop()
+        if isinstance(n, (ast.Break, ast.Continue)):
+            return True
+        if isinstance(n, (ast.For, ast.AsyncFor, ast.While, ast.FunctionDef, ast.AsyncFunctionDef, ast.ClassDef, ast.Lambda)):
+            if isinstance(n, (ast.For, ast.AsyncFor, ast.While)):
+                stack.extend(n.orelse)
+            continue
+        stack.extend(ast.iter_child_nodes(n))
+    return False
+
+
+def _stored_chains(body) -> set[str]:
+    out = set()
+    for st in body:
+        for n in ast.walk(st):
+            if isinstance(n, (ast.Name, ast.Attribute, ast.Subscript)) and isinstance(n.ctx, (ast.Store, ast.Del)):
+                c = chain(n)
+                if c:
+                    out.add(c)
+            elif isinstance(n, ast.Call) and isinstance(n.func, ast.Name) and n.func.id in ("setattr", "delattr") and n.args:
+                out.add((chain(n.args[0]) or "?") + ".*")
+    return out
+
+
+class _Unroller:
+    def __init__(self, repo, fi: FuncInfo, root) -> None:
+        self.repo, self.fi, self.root, self.changed = repo, fi, root, False
+
+    def block(self, stmts: list) -> list:
+        out = []
+        for st in stmts:
+            for f in ("body", "orelse", "finalbody"):
+                v = getattr(st, f, None)
+                if isinstance(v, list) and v and isinstance(v[0], ast.stmt):
+                    setattr(st, f, self.block(v))
+            for h in getattr(st, "handlers", []) or []:
+                h.body = self.block(h.body)
+            if isinstance(st, ast.For):
+                un = self.unroll(st)
+                if un is not None:
+                    out.extend(un)
+                    self.changed = True
+                    continue
+            out.append(st)
+        return out
+
+    def unroll(self, st: ast.For):
+        elts = _literal_elts(self.repo, self.fi, st.iter)
+        if elts is None or len(elts) > 8 or _own_loop_jumps(st.body):
+            return None
+        tnames = {n.id for n in ast.walk(st.target) if isinstance(n, ast.Name)}
+        if not tnames or any(not isinstance(n, (ast.Name, ast.Tuple, ast.List, ast.Load, ast.Store)) for n in ast.walk(st.target)):
+            return None
+        stored = _stored_chains(st.body)
+        if tnames & stored:
+            return None
+        # the loop variables must not be used outside the loop (they would keep the last element)
+        inside = {id(n) for n in ast.walk(st)}
+        for n in ast.walk(self.root):
+            if isinstance(n, ast.Name) and n.id in tnames and id(n) not in inside:
+                return None
+        out = []
+        for e in elts:
+            m: dict = {}
+            if not _bind_target(st.target, e, m):
+                return None
+            for v in m.values():
+                for x in ast.walk(v):
+                    if isinstance(x, (ast.Name, ast.Attribute)):
+                        c = chain(x)
+                        if c and (c in stored or any(s.endswith(".*") and c.startswith(s[:-2] + ".") for s in stored)) and not isinstance(v, ast.Constant):
+                            # the element is re-assigned inside the body: keep the value the tuple held
+                            if any(isinstance(n, ast.Name) and isinstance(n.ctx, ast.Load) and n.id in m and m[n.id] is v and self._used_after_store(st.body, n, c)
+                                   for b in st.body for n in ast.walk(b)):
+                                return None
+            sub = _Subst(m)
+            out.extend(sub.visit(clone(b)) for b in st.body)
+        out.extend(st.orelse)
+        return out
+
+    @staticmethod
+    def _used_after_store(body, use: ast.Name, c: str) -> bool:
+        """a store to chain c textually precedes the use inside the loop body (conservative)"""
+        for b in body:
+            for n in ast.walk(b):
+                if isinstance(n, (ast.Name, ast.Attribute)) and isinstance(n.ctx, (ast.Store, ast.Del)) and chain(n) == c:
+                    if (n.lineno, n.col_offset) < (use.lineno, use.col_offset):
+                        return True
+                if isinstance(n, ast.Call) and isinstance(n.func, ast.Name) and n.func.id in ("setattr", "delattr") and (n.lineno, n.col_offset) < (use.lineno, use.col_offset):
+                    return True
+        return False
+
+
+def _make_view(repo, fi: FuncInfo) -> FuncInfo:
+    interesting = False
+    for n in ast.walk(fi.node):
+        if isinstance(n, ast.For) and (isinstance(strip_cast(n.iter), (ast.Tuple, ast.List, ast.Dict, ast.Name, ast.Attribute))
+                                       or isinstance(n.iter, ast.Call) and isinstance(n.iter.func, ast.Attribute) and isinstance(n.iter.func.value, ast.Dict)):
+            interesting = True
+        elif isinstance(n, ast.Call) and (isinstance(n.func, ast.Name) and n.func.id in _SIMPLE_CALLS or any(k.arg is None and isinstance(k.value, ast.Dict) for k in n.keywords)):
+            interesting = True
+        elif isinstance(n, ast.Subscript) and isinstance(n.value, ast.Dict):
+            interesting = True
+    if not interesting:
+        return fi
+    node = clone(fi.node)
+    un = _Unroller(repo, fi, node)
+    node.body = un.block(node.body)
+
+    def has_attr(base: ast.AST, name: str) -> bool:
+        if not (isinstance(base, ast.Name) and base.id == "self" and fi.cls is not None):
+            return False
+        for c in fi.cls.mro():
+            init = c.methods.get("__init__")
+            if init is not None and any(chain(t) == f"self.{name}" for st, t in stores(init, lambda ch: ch == f"self.{name}")):
+                return True
+        return False
+    fd = _FoldDyn(has_attr)
+    node = fd.visit(node)
+    if not (un.changed or fd.changed):
+        return fi
+    ast.fix_missing_locations(node)
+    set_parents(node)
+    v = FuncInfo(fi.name, fi.qualname, node, fi.module, fi.cls)
+    node._info = v  # type: ignore[attr-defined]
+    return v
+
+
+def _view(ctx: Ctx, fi: FuncInfo) -> FuncInfo:
+    """
+    fi with every loop over a literal tuple / list / dict of simple elements unrolled (the loop variable replaced by the
+    element) and constant-name getattr / setattr / **{...} / {...}[k] folded: the same statements in the same order, so a
+    verdict about the view is a verdict about fi.  fi itself when there is nothing to unroll.
+    """
+    cache = ctx.__dict__.setdefault("_c09_views", {})
+    k = id(fi.node)
+    if k not in cache:
+        try:
+            v = _make_view(ctx.repo, fi)
+        except RecursionError:
+            v = fi
+        cache[k] = (fi, v)
+        cache[id(v.node)] = (v, v)
+    return cache[k][1]
+
+
+def _meth(ctx: Ctx, cls: str, name: str, rel: str) -> FuncInfo:
+    return _view(ctx, ctx.repo.method(cls, name, rel))
+
+
+# ------------------------------------------------------------------------------------ facts through fresh aliases / flags
+def _between_inert(cfg, dnodes, unodes) -> bool:
+    """Every statement that can run between a definition and a use neither calls anything (logging aside) nor stores an attribute."""
+    fwd = cfg.reach([v for d in dnodes for v, lab in d.succ if lab != "exc"], cut_nodes=unodes)
+    back, todo = set(), list(unodes)
+    while todo:
+        u = todo.pop()
+        for p, _ in u.pred:
+            if p not in back and p not in dnodes:
+                back.add(p)
+                todo.append(p)
+    from ..cfg import call_may_raise
+    for n in fwd & back:
+        if n.ast is None or n in unodes:
+            continue
+        a = n.ast
+        if isinstance(a, (ast.For, ast.AsyncFor, ast.While, ast.Try, ast.ExceptHandler, ast.With, ast.AsyncWith)):
+            continue
+        for x in ast.walk(a):
+            if isinstance(x, ast.Call) and call_may_raise(x):
+                return False
+            if isinstance(x, (ast.Await, ast.Yield, ast.YieldFrom)):
+                return False
+            if isinstance(x, (ast.Attribute, ast.Subscript)) and isinstance(x.ctx, (ast.Store, ast.Del)):
+                return False
+    return True
+
+
+def _facts(fi: FuncInfo, cfg, site) -> list[Fact]:
+    """
+    facts_at plus what they say once single-assignment locals are read back: `state = c.state ... if state == READY`
+    gives `c.state == READY`, `ready = c.state == READY ... if ready` gives the comparison itself - provided nothing that
+    could change the aliased value runs between the assignment and the test.
+    """
+    base = facts_at(cfg, site)
+    out = list(base)
+
+    def fresh_value(name_node: ast.AST, f: Fact):
+        if not isinstance(name_node, ast.Name):
+            return None
+        d = single_def(fi, name_node.id)
+        if d is None or d[1] is not None:
+            return None
+        st = local_defs(fi, name_node.id)[0][0]
+        if not _between_inert(cfg, set(cfg.nodes_for(st)), set(cfg.nodes_for(f.atom))):
+            return None
+        return strip_cast(d[0])
+
+    def atoms(e: ast.AST, pol: bool) -> list[Fact]:
+        e = strip_cast(e)
+        if isinstance(e, ast.UnaryOp) and isinstance(e.op, ast.Not):
+            return atoms(e.operand, not pol)
+        if isinstance(e, ast.BoolOp):
+            if isinstance(e.op, ast.And) == pol:
+                return [g for v in e.values for g in atoms(v, pol)]
+            return []
+        return [fact_of(e, pol)]
+
+    todo = list(base)
+    for _ in range(3):
+        nxt = []
+        for f in todo:
+            if f.op == "truthy":
+                v = fresh_value(f.left, f)
+                if v is not None and isinstance(v, (ast.Compare, ast.BoolOp, ast.UnaryOp)):
+                    nxt.extend(Fact(g.op, g.left, g.right, g.pos, f.atom) for g in atoms(v, f.pos))
+            else:
+                lv, rv = fresh_value(f.left, f), fresh_value(f.right, f) if f.right is not None else None
+                if lv is not None or rv is not None:
+                    nxt.append(Fact(f.op, lv if lv is not None else f.left, rv if rv is not None else f.right, f.pos, f.atom))
+        out.extend(nxt)
+        todo = nxt
+        if not todo:
+            break
+    return out
 
 
 def _is_increment(st: ast.stmt, target: str) -> bool:
@@ -287,56 +915,225 @@ def _older_than(fi: FuncInfo, f, stamp: str, limit_ok) -> bool:
     return False
 
 
+def _traversal(fi: FuncInfo, it: ast.AST):
+    """(table chain, items|keys|values) when `it` walks a *copy* of a table: list(T.items()), tuple(T), T.copy().values(), dict(T) ..."""
+    def table_of(base):
+        base = strip_cast(base)
+        return _snapshot_base(base), rchain(fi, base)
+
+    it = strip_cast(resolve(fi, it))
+    if isinstance(it, ast.Call) and isinstance(it.func, ast.Name) and it.func.id in ("list", "tuple", "sorted") and len(it.args) == 1:
+        inner = strip_cast(resolve(fi, it.args[0]))
+        if isinstance(inner, ast.Call) and isinstance(inner.func, ast.Attribute) and inner.func.attr in ("items", "keys", "values") and not inner.args:
+            snap, plain = table_of(inner.func.value)
+            return (snap or plain), inner.func.attr
+        if isinstance(inner, (ast.Name, ast.Attribute)):
+            return rchain(fi, inner), "keys"
+        snap = _snapshot_base(inner)
+        return (snap, "keys") if snap else None
+    if isinstance(it, ast.Call) and isinstance(it.func, ast.Attribute) and it.func.attr in ("items", "keys", "values") and not it.args:
+        snap = _snapshot_base(strip_cast(resolve(fi, it.func.value)))
+        return (snap, it.func.attr) if snap else None
+    snap = _snapshot_base(it)
+    return (snap, "keys") if snap else None
+
+
+def _entry_texts(l: ast.For, table: str, kind: str):
+    """(texts naming the entry's circuit id, texts naming the entry object, loop variable names) for one sweep loop."""
+    t = l.target
+    if kind == "items":
+        if isinstance(t, ast.Tuple) and len(t.elts) == 2 and all(isinstance(e, ast.Name) for e in t.elts):
+            return [t.elts[0].id], [t.elts[1].id], {t.elts[0].id, t.elts[1].id}
+        if isinstance(t, ast.Name):
+            return [f"{t.id}[0]"], [f"{t.id}[1]"], {t.id}
+    elif kind == "keys" and isinstance(t, ast.Name):
+        return [t.id], [f"{table}[{t.id}]", f"{table}.get({t.id})", f"{table}.get({t.id}, None)"], {t.id}
+    elif kind == "values" and isinstance(t, ast.Name) and table != "self.relay_from_to":     # a relay's circuit_id is the far side's key
+        return [f"{t.id}.circuit_id"], [t.id], {t.id}
+    return None
+
+
+def _sweep_sites(ctx: Ctx, fi: FuncInfo):
+    """
+    (function, loop, table, kind, consumer) for every loop over a copy of a routing table in fi and in the NEW private
+    helpers fi runs on every normal path; a loop inside a NEW generator helper is tied to the loop of fi that consumes it.
+    """
+    out = []
+    todo, seen = [(fi, None)], set()
+    while todo:
+        f, consumer = todo.pop(0)
+        if f.qualname in seen:
+            continue
+        seen.add(f.qualname)
+        cfg = ctx.cfg(f)
+        for l in [l for l in walk_no_nested(f.node) if isinstance(l, ast.For)]:
+            tr = _traversal(f, l.iter)
+            if tr is not None and tr[0] in SWEEP:
+                out.append((f, l, tr[0], tr[1], consumer))
+                continue
+            it = strip_cast(resolve(f, l.iter))
+            if isinstance(it, ast.Call):
+                for g in _new_helper_targets(ctx.repo, f, it):
+                    if any(isinstance(n, (ast.Yield, ast.YieldFrom)) for n in walk_no_nested(g.node)) and consumer is None:
+                        todo.append((_view(ctx, g), (f, l)))
+        if consumer is not None:
+            continue
+        for c in calls(f):
+            par = getattr(c, "_parent", None)
+            if isinstance(par, ast.For) and par.iter is c:
+                continue
+            for g in _new_helper_targets(ctx.repo, f, c):
+                if any(isinstance(n, (ast.Yield, ast.YieldFrom)) for n in walk_no_nested(g.node)):
+                    continue
+                ns = cfg.nodes_for(c)
+                if ns and cfg.exit not in cfg.reach(cut_nodes=ns, follow_exc=False):
+                    todo.append((_view(ctx, g), None))
+    return out
+
+
+def _remover_sinks(f: FuncInfo, cfg, within: ast.AST, remover: str, idset: set[str]) -> list:
+    out = []
+    for c in ast.walk(within):
+        if isinstance(c, ast.Call) and chain(c.func) == f"self.{remover}":
+            a = arg(c, 0, "circuit_id")
+            if a is not None and set(_texts(f, a)) & idset:
+                out.extend(cfg.nodes_for(c))
+    return out
+
+
+def _record_slot(f: FuncInfo, value: ast.AST | None, idset: set[str]):
+    """Where a record (`cid` or `(cid, reason, ...)`) carries the circuit id: () for the bare id, (k,) for element k; None = not there."""
+    if value is None:
+        return None
+    v = strip_cast(value)
+    if set(_texts(f, v)) & idset:
+        return ()
+    if isinstance(v, (ast.Tuple, ast.List)):
+        for k, e in enumerate(v.elts):
+            if not isinstance(e, ast.Starred) and set(_texts(f, e)) & idset:
+                return (k,)
+    return None
+
+
+def _consumer_removes(ctx: Ctx, f: FuncInfo, l: ast.For, slot, remover: str) -> bool:
+    """The loop l hands the id found at `slot` of every record to self.<remover> on every normal path of its body, and never stops early."""
+    t = l.target
+    ids: set[str] = set()
+    if slot == ():
+        if isinstance(t, ast.Name):
+            ids = {t.id}
+    elif isinstance(t, (ast.Tuple, ast.List)) and slot[0] < len(t.elts) and isinstance(t.elts[slot[0]], ast.Name) \
+            and not any(isinstance(e, ast.Starred) for e in t.elts[:slot[0] + 1]):
+        ids = {t.elts[slot[0]].id}
+    elif isinstance(t, ast.Name):
+        ids = {f"{t.id}[{slot[0]}]"}
+    if not ids or any(isinstance(n, (ast.Break, ast.Return)) for n in ast.walk(l)):
+        return False
+    cfg = ctx.cfg(f)
+    sinks = _remover_sinks(f, cfg, l, remover, ids)
+    loopn = cfg.nodes_for(l)
+    starts = [v for n in loopn for v, lab in n.succ if lab is True]
+    r = cfg.reach(starts, cut_nodes=sinks, follow_exc=False)
+    return bool(sinks) and not any(n in r for n in loopn) and cfg.exit not in r
+
+
+def _deferred_sinks(ctx: Ctx, f: FuncInfo, cfg, l: ast.For, idset: set[str], remover: str, consumer) -> list:
+    """
+    Statements of the sweep loop that only *record* the entry for removal, where the removal provably follows:
+    `todo.append((cid, ...))` with a later unconditional loop over `todo` in the same function that removes each record, and
+    `yield (cid, ...)` in a generator helper whose consuming loop removes each record.
+    """
+    out = []
+    if consumer is not None:
+        cf, cl = consumer
+        for y in ast.walk(l):
+            if isinstance(y, ast.Yield):
+                slot = _record_slot(f, y.value, idset)
+                if slot is not None and _consumer_removes(ctx, cf, cl, slot, remover):
+                    out.extend(cfg.nodes_for(y))
+        return out
+    loopn = cfg.nodes_for(l)
+    after = [v for n in loopn for v, lab in n.succ if lab is False]
+    for c in ast.walk(l):
+        if not (isinstance(c, ast.Call) and isinstance(c.func, ast.Attribute) and c.func.attr == "append" and isinstance(c.func.value, ast.Name) and len(c.args) == 1):
+            continue
+        lst = c.func.value.id
+        d = single_def(f, lst)
+        if d is None or d[1] is not None or not (isinstance(strip_cast(d[0]), ast.List) and not strip_cast(d[0]).elts
+                                                 or isinstance(strip_cast(d[0]), ast.Call) and chain(strip_cast(d[0]).func) == "list" and not strip_cast(d[0]).args):
+            continue
+        slot = _record_slot(f, c.args[0], idset)
+        if slot is None:
+            continue
+        for l2 in [x for x in walk_no_nested(f.node) if isinstance(x, ast.For) and x is not l]:
+            it = strip_cast(l2.iter)
+            if isinstance(it, ast.Call) and isinstance(it.func, ast.Name) and it.func.id in ("list", "tuple") and len(it.args) == 1:
+                it = strip_cast(it.args[0])
+            if not (isinstance(it, ast.Name) and it.id == lst):
+                continue
+            l2n = cfg.nodes_for(l2)
+            # the consuming loop runs on every normal continuation after the sweep loop, and the list is only appended to
+            others = [x for x in ast.walk(f.node) if isinstance(x, ast.Name) and x.id == lst and isinstance(getattr(x, "_parent", None), ast.Attribute)
+                      and x._parent.attr != "append"]
+            if cfg.exit not in cfg.reach(after, cut_nodes=l2n, follow_exc=False) and not others and _consumer_removes(ctx, f, l2, slot, remover):
+                out.extend(cfg.nodes_for(c))
+    return out
+
+
 def rule_sweep(ctx: Ctx) -> None:
     repo = ctx.repo
-    fi = repo.method("TunnelCommunity", "do_remove", TC)
-    cfg = ctx.cfg(fi)
-    loops = [l for l in walk_no_nested(fi.node) if isinstance(l, ast.For)]
+    fi = _meth(ctx, "TunnelCommunity", "do_remove", TC)
+    sites = _sweep_sites(ctx, fi)
     for table, (remover, need_age) in SWEEP.items():
-        lp = [l for l in loops if _snapshot_items_of(resolve(fi, l.iter)) == table]
+        lp = [s for s in sites if s[2] == table]
         ctx.check(len(lp) == 1, "sweep-coverage", fi, fi.node, f"do_remove iterates a copy of {table}",
                   f"do_remove has no loop over list({table}.items()): entries of that table are never swept")
         if len(lp) != 1:
             continue
-        l = lp[0]
-        idv, objv = (l.target.elts[0].id, l.target.elts[1].id) if isinstance(l.target, ast.Tuple) and len(l.target.elts) == 2 \
-            and all(isinstance(e, ast.Name) for e in l.target.elts) else (None, None)
+        f, l, _, kind, consumer = lp[0]
+        cfg = ctx.cfg(f)
+        names = _entry_texts(l, table, kind)
+        if names is None:
+            raise AnalysisError(f"undecided: the sweep loop `{norm(l.target)} in {norm(l.iter)}` binds the entries of {table} in a way this rule does not follow")
+        ids, objs, pinned_names = names
+        idset = set(ids)
         # no early exit from the sweep
         early = [n for n in ast.walk(l) if isinstance(n, (ast.Break, ast.Return))]
-        ctx.check(not early, "sweep-coverage", fi, l, f"sweep over {table} examines every entry", f"the sweep over {table} can stop early")
-        rem = [c for c in ast.walk(l) if isinstance(c, ast.Call) and chain(c.func) == f"self.{remover}"]
-        inactive = age = False
+        ctx.check(not early, "sweep-coverage", f, l, f"sweep over {table} examines every entry", f"the sweep over {table} can stop early")
+        if consumer is not None:
+            early2 = [n for n in ast.walk(consumer[1]) if isinstance(n, (ast.Break, ast.Return))]
+            ctx.check(not early2, "sweep-coverage", consumer[0], consumer[1], f"consumer of the sweep over {table} handles every entry",
+                      f"the loop that removes the swept entries of {table} can stop early")
+        loopn = cfg.nodes_for(l)
+        starts = [v for n in loopn for v, lab in n.succ if lab is True]
+        sinks = _remover_sinks(f, cfg, l, remover, idset) + _deferred_sinks(ctx, f, cfg, l, idset, remover, consumer)
 
-        def is_inactive(g) -> bool:
-            return _older_than(fi, g, f"{objv}.last_activity", lambda t: t == "self.settings.max_time_inactive")
+        def removed_under(assume: dict) -> bool:
+            """Under the assumption about *this* entry, no normal run of the loop body gets to the next entry without handing it to the remover."""
+            if not sinks or not starts:
+                return False
+            w = _World(f, cfg, assume, pinned=loopn)
+            r = w.reach(starts, cut_nodes=sinks, follow_exc=False)
+            return not any(n in r for n in loopn) and cfg.exit not in r
 
-        for c in rem:
-            if chain(resolve(fi, arg(c, 0))) != idv:
-                continue
-            fs = facts_at(cfg, c)
-            for f in fs:
-                # the test must be the *only* condition of the removal (besides `state == READY` for own circuits and the
-                # negation of the earlier inactivity branch): an extra conjunct lets abandoned entries live forever
-                others = [g for g in fs if g is not f
-                          and not (g.op == "eq" and g.pos and {norm(g.left), norm(g.right)} == {f"{objv}.state", "CIRCUIT_STATE_READY"})
-                          and not (g.op == "lt" and not g.pos and is_inactive(Fact("lt", g.left, g.right, True, g.atom)))]
-                if is_inactive(f) and not others:
-                    inactive = True
-                if _older_than(fi, f, f"{objv}.creation_time", lambda t: t == f"self.get_max_time({idv})") and not others:
-                    age = True
-        ctx.check(inactive, "sweep-coverage", fi, l, f"{table}: entry removed when last_activity < now - max_time_inactive",
+        # the inactivity test must be the *only* condition of the removal (besides `state == READY` for own circuits): an
+        # extra conjunct is unknown under the assumption, leaves a path around the removal, and is reported
+        idle = {}
+        for o in objs:
+            idle[_K("lt", f"{o}.last_activity", "time.time() - self.settings.max_time_inactive")] = True
+            idle[_K("eq", f"{o}.state", "CIRCUIT_STATE_READY")] = True
+        ctx.check(removed_under(idle), "sweep-coverage", f, l, f"{table}: entry removed when last_activity < now - max_time_inactive",
                   f"entries of {table} are not removed by inactivity: an abandoned entry lives forever if the destroy is lost")
         if need_age:
-            ctx.check(age, "sweep-coverage", fi, l, f"{table}: entry removed when older than get_max_time",
+            old = {_K("lt", f"{o}.creation_time", f"time.time() - self.get_max_time({i})"): True for o in objs for i in ids}
+            ctx.check(removed_under(old), "sweep-coverage", f, l, f"{table}: entry removed when older than get_max_time",
                       f"entries of {table} are not removed by age")
     # do_circuits -> do_remove on every path; registered periodically
-    dc = repo.method("TunnelCommunity", "do_circuits", TC)
-    cfgd = ctx.cfg(dc)
-    rm = [n for c in calls(dc, "self.do_remove") for n in cfgd.nodes_for(c)]
-    ok = bool(rm) and cfgd.exit not in cfgd.reach(cut_nodes=rm, follow_exc=False)
+    dc = _meth(ctx, "TunnelCommunity", "do_circuits", TC)
+    ok = _always_passes(ctx, dc, lambda f, c: chain(c.func) == "self.do_remove")
     ctx.check(ok, "sweep-coverage", dc, dc.node, "do_circuits calls do_remove on every normal path", "do_circuits can finish without running the sweep")
     init = repo.method("TunnelCommunity", "__init__", TC)
-    regs = [c for c in calls(init, "self.register_task") if chain(arg(c, 1)) == "self.do_circuits"]
+    regs = [c for c in calls(init, "self.register_task") if chain(arg(c, 1, "task")) == "self.do_circuits"]
     ok = False
     for c in regs:
         iv = arg(c, None, "interval")
@@ -353,92 +1150,199 @@ def rule_sweep(ctx: Ctx) -> None:
     # last_activity only moves by beat_heart (monotone clock reads), creation_time set once
     for m, f2, a in repo.attribute_uses("creation_time"):
         if isinstance(a.ctx, ast.Store):
-            ctx.check(f2 is not None and f2.name == "__init__", "sweep-coverage", f2 or m.relpath, enclosing_stmt(a),
+            ok = f2 is not None and (f2.name == "__init__" or _only_reached_from(repo, f2, {f"{f2.cls.name}.__init__"} if f2.cls else set()))
+            ctx.check(ok, "sweep-coverage", f2 or m.relpath, enclosing_stmt(a),
                       "creation_time assigned only at construction", "creation_time is refreshed after construction (age limit never reached)")
+
+
+def _pops_entry(f: FuncInfo, c: ast.Call, table: str, cid_texts: set[str]) -> bool:
+    """c is `<table>.pop(<cid>[, default])` (the table possibly through a local alias)."""
+    return call_name(c) == "pop" and isinstance(c.func, ast.Attribute) and rchain(f, c.func.value) == table \
+        and arg(c, 0) is not None and bool(set(_texts(f, arg(c, 0))) & cid_texts)
+
+
+def _unknown_entry_edge(f: FuncInfo, table: str, cid_texts: set[str]):
+    """Edge filter: edges that say "there is no such entry" (`T.get(id) is None`, falsy `T.get(id)`, `id not in T`), however the test is written."""
+    def is_get(e) -> bool:
+        got = resolve(f, e)
+        return isinstance(got, ast.Call) and call_name(got) == "get" and isinstance(got.func, ast.Attribute) and rchain(f, got.func.value) == table \
+            and arg(got, 0) is not None and bool(set(_texts(f, arg(got, 0))) & cid_texts)
+
+    def unknown_entry(u, v, lab) -> bool:
+        if u.kind != "cond" or not isinstance(lab, bool):
+            return False
+        g = fact_of(u.ast, lab)
+        if g.op == "in":
+            return not g.pos and bool(set(_texts(f, g.left)) & cid_texts) and rchain(f, strip_cast(g.right)) == table
+        if g.op == "is":
+            return g.pos and is_get(g.left) and isinstance(g.right, ast.Constant) and g.right.value is None
+        return g.op == "truthy" and not g.pos and is_get(g.left)
+    return unknown_entry
+
+
+def _removal_nodes(ctx: Ctx, f: FuncInfo, table: str, cid: str, depth: int = 1):
+    """(removal call / del statements of f, CFG nodes where the entry <table>[cid] is taken out - also inside NEW helpers that always do it)."""
+    cfg = ctx.cfg(f)
+    cid_texts = {cid}
+    pops = [c for c in calls(f) if _pops_entry(f, c, table, cid_texts)]
+    dels = [st for st, t in stores(f, lambda ch: ch.endswith("[]")) if isinstance(st, ast.Delete) and isinstance(t, ast.Subscript)
+            and rchain(f, t.value) == table and set(_texts(f, t.slice)) & cid_texts]
+    nodes = [n for p in pops + dels for n in cfg.nodes_for(p)]
+    if depth > 0:
+        for c in calls(f):
+            for g0 in _new_helper_targets(ctx.repo, f, c):
+                g = _view(ctx, g0)
+                bound = _bind_args(g, c)
+                for pname, a in bound.items():
+                    if set(_texts(f, a)) & cid_texts and pname in g.params():
+                        sub_sites, sub_nodes = _removal_nodes(ctx, g, table, pname, depth - 1)
+                        gcfg = ctx.cfg(g)
+                        if sub_nodes and gcfg.exit not in gcfg.reach(cut_nodes=sub_nodes, cut_edge=_unknown_entry_edge(g, table, {pname}), follow_exc=False):
+                            pops.append(c)
+                            nodes.extend(cfg.nodes_for(c))
+    return pops + dels, nodes
 
 
 def rule_remove_removes(ctx: Ctx) -> None:
     repo = ctx.repo
     for meth, table in (("remove_circuit", "self.circuits"), ("remove_relay", "self.relay_from_to"), ("remove_exit_socket", "self.exit_sockets")):
-        fi = repo.method("TunnelCommunity", meth, TC)
+        fi = _meth(ctx, "TunnelCommunity", meth, TC)
         cfg = ctx.cfg(fi)
         cid = fi.params()[1]
-        pops = [c for c in calls(fi, f"{table}.pop") if chain(resolve(fi, arg(c, 0))) == cid]
-        dels = [st for st, t in stores(fi, f"{table}[]") if isinstance(st, ast.Delete) and isinstance(t, ast.Subscript)
-                and chain(resolve(fi, t.slice)) == cid]
-        ctx.check(bool(pops or dels), "remove-removes", fi, fi.node, f"{meth} pops {table}[{cid}]", f"{meth} never removes the entry from {table}")
-        if not (pops or dels):
+        sites, pn = _removal_nodes(ctx, fi, table, cid)
+        ctx.check(bool(sites), "remove-removes", fi, fi.node, f"{meth} pops {table}[{cid}]", f"{meth} never removes the entry from {table}")
+        if not sites:
             continue
-        pn = [n for p in pops + dels for n in cfg.nodes_for(p)]
-
         # the only edges that may lead around the removal say "there is no such entry": `T.get(id) is None`, a falsy
         # `T.get(id)` (entries are objects), `id not in T` - in whatever form the test is written (guard clause, nesting,
         # if/else, fall-through); they are cut, and the normal exit must then be unreachable without passing the removal
-        def unknown_entry(u, v, lab, fi=fi, table=table, cid=cid) -> bool:
-            if u.kind != "cond" or not isinstance(lab, bool):
-                return False
-            f = fact_of(u.ast, lab)
-            if f.op == "in":
-                return not f.pos and chain(resolve(fi, f.left)) == cid and chain(strip_cast(f.right)) == table
-            got = resolve(fi, f.left)
-            is_get = isinstance(got, ast.Call) and chain(got.func) == f"{table}.get" and chain(resolve(fi, arg(got, 0))) == cid
-            if f.op == "is":
-                return f.pos and is_get and isinstance(f.right, ast.Constant) and f.right.value is None
-            return f.op == "truthy" and not f.pos and is_get
-
-        r = cfg.reach(cut_nodes=pn, cut_edge=unknown_entry, follow_exc=False)
-        ctx.check(cfg.exit not in r, "remove-removes", fi, (pops + dels)[0], f"every normal path of {meth} reaches {table}.pop({cid}, None)",
+        r = cfg.reach(cut_nodes=pn, cut_edge=_unknown_entry_edge(fi, table, {cid}), follow_exc=False)
+        ctx.check(cfg.exit not in r, "remove-removes", fi, sites[0], f"every normal path of {meth} reaches {table}.pop({cid}, None)",
                   f"{meth} can return without removing the entry (a path around the pop)")
         # the sleep is the configured delay
         for s in calls(fi, "sleep"):
-            ctx.check("self.settings.remove_tunnel_delay" in _texts(fi, arg(s, 0)), "remove-removes", fi, s,
+            ctx.check("self.settings.remove_tunnel_delay" in _texts(fi, arg(s, 0, "delay")), "remove-removes", fi, s,
                       "removal delayed by settings.remove_tunnel_delay only", "removal sleeps for something other than the configured delay")
         ctx.check("task" in fi.decorator_names(), "remove-removes", fi, fi.node, f"{meth} runs as a tracked task", f"{meth} is not a @task")
-    fi = repo.method("TunnelCommunity", "remove_exit_socket", TC)
+    fi = _meth(ctx, "TunnelCommunity", "remove_exit_socket", TC)
     cfg = ctx.cfg(fi)
     closes = [c for c in calls(fi) if call_name(c) == "close"]
     shuts = [c for c in calls(fi) if call_name(c) == "shutdown_task_manager"]
-    popvar = None
+    popvar, popst = None, None
     for st in walk_no_nested(fi.node):
-        if isinstance(st, ast.Assign) and isinstance(st.value, ast.Call) and chain(st.value.func) == "self.exit_sockets.pop" and isinstance(st.targets[0], ast.Name):
-            popvar = st.targets[0].id
+        if isinstance(st, (ast.Assign, ast.AnnAssign)) and isinstance(strip_cast(st.value), ast.Call) and _pops_entry(fi, strip_cast(st.value), "self.exit_sockets", {fi.params()[1]}):
+            t = st.targets[0] if isinstance(st, ast.Assign) else st.target
+            if isinstance(t, ast.Name):
+                popvar, popst = t.id, st
     ok = popvar is not None and any(chain(c.func) == f"{popvar}.close" for c in closes) and any(chain(c.func) == f"{popvar}.shutdown_task_manager" for c in shuts)
     ctx.check(ok, "remove-removes", fi, fi.node, "popped exit socket is closed (if enabled) and its task manager shut down",
               "the removed exit socket's outside sockets / tasks are not released")
     for c in closes + shuts:
-        st = enclosing_stmt(c)
         awaited = isinstance(getattr(c, "_parent", None), ast.Await)
         ctx.check(awaited, "remove-removes", fi, c, f"{norm(c)} awaited", "socket release is not awaited")
+
+    def about_popped(g: Fact) -> bool:
+        """The condition is about the popped socket: the socket itself, its `enabled` flag, or a local read from it *after* the pop."""
+        if chain(g.left) in (popvar, f"{popvar}.enabled"):
+            return True
+        if isinstance(g.left, ast.Name) and popst is not None:
+            d = single_def(fi, g.left.id)
+            ds = local_defs(fi, g.left.id)
+            if d is not None and d[1] is None and norm(strip_cast(d[0])) in (popvar, f"{popvar}.enabled"):
+                return all(cfg.must_complete(n, cfg.nodes_for(popst)) for n in cfg.nodes_for(ds[0][0]))
+        return False
+
     for c in closes:
         fs = facts_at(cfg, c)
-        only_enabled = [f for f in fs if f.op == "truthy" and f.pos]
-        ctx.check(all(chain(f.left) in (popvar, f"{popvar}.enabled") for f in only_enabled), "remove-removes", fi, c,
+        only_enabled = [g for g in fs if g.op == "truthy" and g.pos]
+        ctx.check(all(about_popped(g) for g in only_enabled), "remove-removes", fi, c,
                   "close() conditional only on the socket existing and being enabled", "closing the socket depends on an unrelated condition")
-    cl = repo.method("TunnelExitSocket", "close", "ipv8/messaging/anonymization/exit_socket.py")
-    tc = sorted(chain(c.func) for c in calls(cl) if call_name(c) == "close")
-    ctx.check(tc == ["self.transport_ipv4.close", "self.transport_ipv6.close"], "remove-removes", cl, cl.node,
+    cl = _meth(ctx, "TunnelExitSocket", "close", "ipv8/messaging/anonymization/exit_socket.py")
+    tc = sorted(rchain(cl, c.func) or "?" for c in calls(cl) if call_name(c) == "close")
+    want = ["self.transport_ipv4.close", "self.transport_ipv6.close"]
+    if tc != want and any(not t.startswith("self.transport_") for t in tc):
+        raise AnalysisError(f"undecided: TunnelExitSocket.close closes {tc}: which transports these are cannot be read off the code")
+    ctx.check(tc == want, "remove-removes", cl, cl.node,
               "TunnelExitSocket.close closes both transports", f"TunnelExitSocket.close closes {tc}")
+    _rule_exit_entries_leave_through_remover(ctx)
+
+
+EXIT_TABLE_REMOVERS = ("TunnelCommunity.remove_exit_socket",)
+_DROPPING = {"pop", "popitem", "clear"}
+
+
+def _rule_exit_entries_leave_through_remover(ctx: Ctx) -> None:
+    """
+    remove_exit_socket() is the only code that closes an exit's outside UDP sockets (TunnelExitSocket.close), and it finds the
+    socket through the exit_sockets table.  So an entry may leave that table nowhere else: an exit socket that is popped,
+    deleted or overwritten by other code is out of reach of the destroy message, of the inactivity / age sweep and of unload,
+    and its transports stay open for good.
+    """
+    repo = ctx.repo
+    rule = "remove-removes"
+    n = 0
+    for m, fi, a in repo.attribute_uses("exit_sockets"):
+        if not m.relpath.startswith("ipv8/"):
+            continue
+        p = getattr(a, "_parent", None)
+        what = None
+        if isinstance(p, ast.Attribute) and p.value is a and p.attr in _DROPPING and isinstance(getattr(p, "_parent", None), ast.Call) and p._parent.func is p:
+            what = p._parent
+        elif isinstance(p, ast.Subscript) and p.value is a and isinstance(p.ctx, ast.Del):
+            what = enclosing_stmt(p)
+        elif isinstance(a.ctx, ast.Del):
+            what = enclosing_stmt(a)
+        elif isinstance(a.ctx, ast.Store) and not (fi is not None and fi.name == "__init__"):
+            what = enclosing_stmt(a)
+        elif fi is not None and isinstance(p, (ast.Assign, ast.AnnAssign)) and p.value is a:
+            # a local alias of the table: the same forms through the alias
+            t = p.targets[0] if isinstance(p, ast.Assign) else p.target
+            if isinstance(t, ast.Name):
+                for x in walk_no_nested(fi.node):
+                    if isinstance(x, ast.Name) and x.id == t.id and x is not t:
+                        px = getattr(x, "_parent", None)
+                        if isinstance(px, ast.Attribute) and px.attr in _DROPPING and isinstance(getattr(px, "_parent", None), ast.Call) \
+                                or isinstance(px, ast.Subscript) and px.value is x and isinstance(px.ctx, ast.Del):
+                            what = enclosing_stmt(x)
+        if what is None:
+            continue
+        n += 1
+        ok = fi is not None and (fi.qualname in EXIT_TABLE_REMOVERS or _only_reached_from(repo, fi, EXIT_TABLE_REMOVERS))
+        ctx.check(ok, rule, fi or m.relpath, what, f"exit_sockets entry dropped by {fi.qualname if fi else m.relpath} (the remover that closes the socket)",
+                  f"{fi.qualname if fi else m.relpath} takes an entry out of exit_sockets (`{norm(what)[:80]}`) without going through remove_exit_socket(): that is the "
+                  "only place that closes the exit's outside sockets (TunnelExitSocket.close), so an enabled exit socket dropped here keeps its UDP "
+                  "transports open and is unreachable for the destroy message, the inactivity/age sweep and unload")
+    ctx.floor("remove-removes.exit-table-drops", n, 1)
+
+
+def _argval(c: ast.Call, index: int, name: str):
+    """Argument of a call by position or keyword (None when not passed)."""
+    return arg(c, index, name)
 
 
 def rule_destroy_propagates(ctx: Ctx) -> None:
     repo = ctx.repo
-    fi = repo.method("TunnelCommunity", "on_destroy", TC)
+    fi = _meth(ctx, "TunnelCommunity", "on_destroy", TC)
     payload = fi.params()[2]
     rr = [c for c in calls(fi, "self.remove_relay")]
-    own = [c for c in rr if norm(resolve(fi, arg(c, 0))) == f"{payload}.circuit_id"]
+    own = [c for c in rr if f"{payload}.circuit_id" in _texts(fi, arg(c, 0, "circuit_id"))]
     other = [c for c in rr if c not in own]
-    ok = len(own) == 1 and len(other) == 1 and arg(own[0], None, "destroy") is not None and norm(arg(own[0], None, "destroy")) == f"{payload}.reason" \
-        and arg(other[0], None, "destroy") is None and len(other[0].args) < 4
+
+    def destroy_of(c):
+        d = _argval(c, 3, "destroy")
+        return None if d is None or isinstance(d, ast.Constant) and not d.value else d
+    ok = len(own) == 1 and len(other) == 1 and destroy_of(own[0]) is not None and f"{payload}.reason" in _texts(fi, destroy_of(own[0])) \
+        and destroy_of(other[0]) is None and not any(k.arg is None for k in other[0].keywords)
     ctx.check(ok, "destroy-propagates", fi, fi.node, "relay branch removes both directions and forwards destroy on exactly the far side",
               "a destroy received by a relay is not forwarded onward exactly once (or one direction is left in the table)")
     for meth, helper in (("remove_relay", "destroy_relay"), ("remove_circuit", "destroy_circuit"), ("remove_exit_socket", "destroy_exit_socket")):
-        f2 = repo.method("TunnelCommunity", meth, TC)
+        f2 = _meth(ctx, "TunnelCommunity", meth, TC)
         cfg = ctx.cfg(f2)
         hc = [c for c in calls(f2, f"self.{helper}")]
         ctx.check(len(hc) == 1, "destroy-propagates", f2, f2.node, f"{meth} sends destroy via {helper} when asked", f"{meth} no longer sends destroy")
         for c in hc:
-            fs = facts_at(cfg, c)
-            ctx.check(any(f.op == "truthy" and f.pos and chain(f.left) == "destroy" for f in fs), "destroy-propagates", f2, c,
+            fs = _facts(f2, cfg, c)
+            ctx.check(any(g.op == "truthy" and g.pos and chain(g.left) == "destroy" for g in fs), "destroy-propagates", f2, c,
                       f"{helper} under truthy destroy", "destroy sending is not controlled by the destroy argument")
             # before the entry is popped
             pops = [n for p in calls(f2) if call_name(p) == "pop" and "request_cache" not in (chain(p.func) or "") for n in cfg.nodes_for(p)]
@@ -446,155 +1350,279 @@ def rule_destroy_propagates(ctx: Ctx) -> None:
             after = cfg.reach([v for p in pops for v, lab in p.succ])
             ctx.check(not any(h in after for h in hn), "destroy-propagates", f2, c, "destroy is sent before the entry is popped",
                       "destroy would be sent after the entry is gone (nothing to address it to)")
-    dr = repo.method("TunnelCommunity", "destroy_relay", TC)
+    dr = _meth(ctx, "TunnelCommunity", "destroy_relay", TC)
     sd = [c for c in calls(dr, "self.send_destroy")]
-    ok = len(sd) == 1 and norm(arg(sd[0], 0)) == "relay.hop.address" and norm(arg(sd[0], 1)) == "relay.circuit_id"
-    d = single_def(dr, "relay")
-    ok = ok and d is not None and norm(d[0]) == f"self.relay_from_to.get({dr.params()[1]})"
+    cid = dr.params()[1]
+    far = [f"self.relay_from_to.get({cid})", f"self.relay_from_to.get({cid}, None)", f"self.relay_from_to[{cid}]"]
+    ok = len(sd) == 1 and any(f"{b}.hop.address" in _texts(dr, arg(sd[0], 0)) for b in far) and any(f"{b}.circuit_id" in _texts(dr, arg(sd[0], 1)) for b in far)
     ctx.check(ok, "destroy-propagates", dr, dr.node, "destroy_relay addresses the far side (relay.hop.address, relay.circuit_id)",
               "destroy_relay sends the destroy to the wrong neighbour / under the wrong circuit id")
-    sdf = repo.method("TunnelCommunity", "send_destroy", TC)
+    sdf = _meth(ctx, "TunnelCommunity", "send_destroy", TC)
     pk = [c for c in calls(sdf, "self.ezr_pack")]
     ok = len(pk) == 1 and not any(k.arg == "sig" and isinstance(k.value, ast.Constant) and k.value.value is False for k in pk[0].keywords)
     ctx.check(ok, "destroy-propagates", sdf, sdf.node, "destroy messages are signed (ezr_pack default sig)", "destroy is sent unsigned: the neighbour will reject it")
 
 
+def _site_chains(ctx: Ctx, fi: FuncInfo, pattern, depth: int = 2, _stack=()):
+    """
+    Where fi performs the call `pattern`: [[(fi, call)]] for calls written in fi, [(fi, call of helper), (helper, call)] when
+    the call was moved into a NEW private helper (followed `depth` levels).
+    """
+    out = [[(fi, c)] for c in calls(fi, pattern)]
+    if depth > 0:
+        for c in calls(fi):
+            for g0 in _new_helper_targets(ctx.repo, fi, c):
+                if g0.qualname in _stack:
+                    continue
+                g = _view(ctx, g0)
+                for ch in _site_chains(ctx, g, pattern, depth - 1, _stack + (fi.qualname,)):
+                    out.append([(fi, c), *ch])
+    return out
+
+
+def _rename_key(key, mapping: dict[str, str]):
+    """The assumption key re-expressed in a helper's parameter names (None when it mentions a caller local the helper does not get)."""
+    op, l, r, integer = key.raw
+
+    def ren(text: str):
+        if not text:
+            return text
+        e = _parse(text)
+        if e is None:
+            return None
+        for n in ast.walk(e):
+            if isinstance(n, ast.Name):
+                if n.id in mapping:
+                    n.id = mapping[n.id]
+                elif n.id not in ("self", "time", "len") and not n.id.isupper():
+                    return None
+        return norm(e)
+    l2, r2 = ren(l), ren(r)
+    return None if l2 is None or r2 is None else _K(op, l2, r2, integer)
+
+
+def _blocked_under(ctx: Ctx, ch, assume: dict) -> tuple[bool, bool]:
+    """(site is live at all, site cannot be reached when the assumption holds) for a site chain; the assumption follows the arguments into helpers."""
+    live, blocked = True, False
+    cur = dict(assume)
+    for i, (f, c) in enumerate(ch):
+        cfg = ctx.cfg(f)
+        live = live and any(n in cfg.reach() for n in cfg.nodes_for(c))
+        if _World(f, cfg, cur).reaches(c) is False:
+            blocked = True
+        if i + 1 < len(ch):
+            g = ch[i + 1][0]
+            mapping = {}
+            for pname, a in _bind_args(g, c).items():
+                a = strip_cast(a)
+                if isinstance(a, ast.Name):
+                    mapping[a.id] = pname
+            nxt = {}
+            for k, v in cur.items():
+                k2 = _rename_key(k, mapping) if getattr(k, "raw", None) else None
+                if k2 is not None:
+                    nxt[k2] = v
+            cur = nxt
+    return live, blocked
+
+
+def _return_sites(fi: FuncInfo):
+    return [r for r in walk_no_nested(fi.node) if isinstance(r, ast.Return)]
+
+
 def rule_limits(ctx: Ctx) -> None:
     repo = ctx.repo
-    oc = repo.method("TunnelCommunity", "on_create", TC)
-    cfg = ctx.cfg(oc)
-    for c in ctx.anchor(calls(oc, "self.join_circuit"), "join_circuit in on_create"):
-        fs = facts_at(cfg, c)
+    oc = _meth(ctx, "TunnelCommunity", "on_create", TC)
+    for ch in ctx.anchor(_site_chains(ctx, oc, "self.join_circuit"), "join_circuit in on_create"):
+        fs = [g for f, c in ch for g in _facts(f, ctx.cfg(f), c)]
         ok = False
-        for f in fs:
-            if f.op == "truthy" and f.pos:
-                r = resolve(oc, f.left)
+        for g in fs:
+            if g.op == "truthy" and g.pos:
+                r = resolve(ch[0][0], g.left)
                 if isinstance(r, ast.Await):
                     r = r.value
                 if isinstance(r, ast.Call) and chain(r.func) == "self.should_join_circuit":
                     ok = True
-        ctx.check(ok, "join-limit", oc, c, "join_circuit dominated by a truthy should_join_circuit", "a create is joined without consulting the join limit",
-                  [str(f) for f in fs])
-    sj = repo.method("TunnelCommunity", "should_join_circuit", TC)
+        f, c = ch[-1]
+        ctx.check(ok, "join-limit", f, c, "join_circuit dominated by a truthy should_join_circuit", "a create is joined without consulting the join limit",
+                  [str(g) for g in fs])
+    sj = _meth(ctx, "TunnelCommunity", "should_join_circuit", TC)
     cfgs = ctx.cfg(sj)
-    lim = "self.settings.max_joined_circuits"
-    tot = ("len(self.relay_from_to) + len(self.exit_sockets)", "len(self.exit_sockets) + len(self.relay_from_to)")
-    for r in [r for r in walk_no_nested(sj.node) if isinstance(r, ast.Return)]:
-        fs = facts_at(cfgs, r)
-        at_limit = [f for f in fs if f.op == "lt" and norm(f.right) == lim and norm(f.left) in tot]     # total < limit
-        val = r.value.value if isinstance(r.value, ast.Constant) else None
-        if val is True:
-            ok = any(f.pos for f in at_limit)
-            ctx.check(ok, "join-limit", sj, r, "returns True only when relays+exits < max_joined_circuits",
-                      "should_join_circuit admits a circuit at or above the joined-circuit limit", [str(f) for f in fs])
-        elif val is False:
-            ctx.instance("join-limit", sj.where, "returns False branch", line=r.lineno)
+    # at the limit (`not relays + exits < max_joined_circuits`, in any spelling) every verdict that can be returned is False
+    full = _World(sj, cfgs, {_K("lt", "len(self.relay_from_to) + len(self.exit_sockets)", "self.settings.max_joined_circuits", integer=True): False})
+    rets = _return_sites(sj)
+    refuses = False
+    for r in rets:
+        if not full.reaches(r):
+            ctx.instance("join-limit", sj.where, "return not taken at the limit", line=r.lineno)
+            continue
+        vals = set()
+        if r.value is not None:
+            for n in cfgs.nodes_for(r):
+                vals |= full.ev(r.value, n)
         else:
-            ctx.check(False, "join-limit", sj, r, "constant verdicts", "should_join_circuit returns a non-constant verdict")
-    ctx.check(any(isinstance(r.value, ast.Constant) and r.value.value is False for r in walk_no_nested(sj.node) if isinstance(r, ast.Return)),
+            vals = {False}
+        refuses = refuses or vals == {False}
+        const = isinstance(r.value, ast.Constant)
+        ctx.check(vals == {False}, "join-limit", sj, r, "at relays+exits >= max_joined_circuits the verdict is False",
+                  "should_join_circuit admits a circuit at or above the joined-circuit limit" if const or True in vals else
+                  "should_join_circuit returns a non-constant verdict", [f"verdict at the limit: {sorted(map(str, vals))}"])
+    ctx.check(refuses and cfgs.exit not in full.reach(cut_nodes=[n for r in rets for n in cfgs.nodes_for(r)], follow_exc=False),
               "join-limit", sj, sj.node, "a refusing branch exists", "should_join_circuit never refuses")
     # ---- relay_early
-    rc = repo.method("PythonCryptoEndpoint", "relay_cell", CR)
+    rc = _meth(ctx, "PythonCryptoEndpoint", "relay_cell", CR)
     cfgr = ctx.cfg(rc)
     # assumption "the cell carries relay_early and the route's budget is used up": the send must be unreachable, whatever
     # else is tested on the way (an extra conjunct such as a direction test leaves the send reachable and is reported)
     k_early = _K("truthy", "cell.relay_early")
-    k_left = _K("lt", "next_relay.relay_early_count", "self.max_relay_early")
-    spent = _World(rc, cfgr, {k_early: True, k_left: False})
-    for s in ctx.anchor(calls(rc, "self.endpoint.send"), "send in relay_cell"):
-        live = any(n in cfgr.reach() for n in cfgr.nodes_for(s))
-        ctx.check(live and not spent.reaches(s), "relay-early-budget", rc, s,
+    k_left = _K("lt", "next_relay.relay_early_count", "self.max_relay_early", integer=True)
+    for ch in ctx.anchor(_site_chains(ctx, rc, "self.endpoint.send"), "send in relay_cell"):
+        f, s = ch[-1]
+        cfgf = ctx.cfg(f)
+        live, blocked = _blocked_under(ctx, ch, {k_early: True, k_left: False})
+        ctx.check(live and blocked, "relay-early-budget", f, s,
                   "no path forwards a relay_early cell once the relay's budget is used up",
                   "a relay forwards relay_early cells beyond max_relay_early (the send is reachable with relay_early set and "
                   "relay_early_count >= max_relay_early)")
-        incs = [n for st in walk_no_nested(rc.node) if isinstance(st, ast.stmt) and _is_increment(st, "next_relay.relay_early_count")
-                for n in cfgr.nodes_for(st)]
-        ok = bool(incs) and all(cfgr.always_followed_by(sn, incs) for sn in cfgr.nodes_for(s))
-        ctx.check(ok, "relay-early-budget", rc, s, "every forwarded cell increments the relay's relay_early counter",
+        ok = False
+        for lvl in range(len(ch) - 1, -1, -1):                      # counted in the function that sends, or by its caller right after
+            f2, c2 = ch[lvl]
+            cfg2 = ctx.cfg(f2)
+            route = "next_relay"
+            if lvl > 0:
+                back = {strip_cast(a).id: p for p, a in _bind_args(f2, ch[lvl - 1][1]).items() if isinstance(strip_cast(a), ast.Name)}
+                route = back.get("next_relay", "next_relay") if lvl == 1 else route
+            incs = [n for st in walk_no_nested(f2.node) if isinstance(st, ast.stmt) and _is_increment(st, f"{route}.relay_early_count")
+                    for n in cfg2.nodes_for(st)]
+            if incs and all(cfg2.always_followed_by(sn, incs) for sn in cfg2.nodes_for(c2)):
+                ok = True
+                break
+        ctx.check(ok, "relay-early-budget", f, s, "every forwarded cell increments the relay's relay_early counter",
                   "forwarded relay_early cells are not counted")
     d = single_def(rc, "next_relay")
-    ctx.check(d is not None and norm(strip_cast(d[0])) == "self.relays[cell.circuit_id]", "relay-early-budget", rc, rc.node,
+    ctx.check(d is not None and d[1] is None and "self.relays[cell.circuit_id]" in _texts(rc, d[0]), "relay-early-budget", rc, rc.node,
               "budget is the one of the route the cell is relayed over", "the relay_early budget of a different route is consulted")
     mre = repo.cls("PythonCryptoEndpoint", CR).methods.get("max_relay_early")
-    ok = mre is not None and any(isinstance(r, ast.Return) and norm(r.value) == "self.settings.max_relay_early if self.settings else 8" for r in ast.walk(mre.node))
+    ok = mre is not None
+    if mre is not None:
+        cfgm = ctx.cfg(mre)
+        for has, want in ((True, lambda e: norm(strip_cast(e)) == "self.settings.max_relay_early"),
+                          (False, lambda e: isinstance(const_value(e), int) and not isinstance(const_value(e), bool) and const_value(e) > 0)):
+            w = _World(mre, cfgm, {_K("truthy", "self.settings"): has})
+            seen = 0
+            for r in _return_sites(mre):
+                if not w.reaches(r) or r.value is None:
+                    continue
+                seen += 1
+                vs = [r.value]
+                while any(isinstance(strip_cast(v), ast.IfExp) for v in vs):
+                    nv = []
+                    for v in vs:
+                        v = strip_cast(v)
+                        if isinstance(v, ast.IfExp):
+                            t = set()
+                            for n in cfgm.nodes_for(r):
+                                t |= w.ev(v.test, n)
+                            nv += ([v.body] if t - {False} else []) + ([v.orelse] if t - {True} else [])
+                        else:
+                            nv.append(v)
+                    vs = nv
+                ok = ok and all(want(resolve(mre, v)) for v in vs)
+            ok = ok and seen > 0
     ctx.check(ok, "relay-early-budget", mre or rc, (mre or rc).node, "max_relay_early is the configured setting (default 8)",
               "the relay_early budget is not the configured number")
     # ---- originator: flag == (extend or budget left), decided as a truth table over the two conditions
-    sc = repo.method("PythonCryptoEndpoint", "send_cell", CR)
+    sc = _meth(ctx, "PythonCryptoEndpoint", "send_cell", CR)
     cfgs2 = ctx.cfg(sc)
     sts = [s for s, t in stores(sc, "cell.relay_early")]
     cnt = [s for s, t in stores(sc, "circuit.relay_early_count")]
     k_ext = _K("eq", "cell.message[0]", "4")
-    k_own = _K("lt", "circuit.relay_early_count", "self.max_relay_early")
-    marks = len(sts) == 1 and isinstance(sts[0], ast.Assign) and len(sts[0].targets) == 1
-    counts = marks and len(cnt) == 1 and _is_increment(cnt[0], "circuit.relay_early_count")
+    k_own = _K("lt", "circuit.relay_early_count", "self.max_relay_early", integer=True)
+    k_circ = _K("truthy", "circuit")
+    sendn = [n for c in calls(sc, "self.endpoint.send") for n in cfgs2.nodes_for(c)]
+    marks = bool(sts) and bool(sendn)
+    counts = marks and bool(cnt) and all(_is_increment(c, "circuit.relay_early_count") for c in cnt)
+    incn = [n for c in cnt for n in cfgs2.nodes_for(c)]
+    probe = ast.parse("cell.relay_early", mode="eval").body
     if marks:
-        stn = cfgs2.nodes_for(sts[0])
-        after = [v for n in stn for v, lab in n.succ if lab != "exc"]
-        incn = [n for c in cnt for n in cfgs2.nodes_for(c)]
-        sendn = [n for c in calls(sc, "self.endpoint.send") for n in cfgs2.nodes_for(c)]
         for ext in (True, False):
             for own in (True, False):
-                w = _World(sc, cfgs2, {k_ext: ext, k_own: own})
+                # for a cell sent over one of our own circuits: the flag that goes out is exactly (extend or budget left)
+                w = _World(sc, cfgs2, {k_ext: ext, k_own: own, k_circ: True})
                 vals = set()
-                for n in stn:
-                    vals |= w.ev(sts[0].value, n)
+                for n in sendn:
+                    if n in w.reach():
+                        vals |= w.value_at("cell.relay_early", probe, n)
                 marks = marks and vals == {ext or own}
                 if not counts:
                     continue
                 if ext or own:
-                    # no normal run  store -> send -> exit  that avoids the increment
-                    r1 = w.reach(after, cut_nodes=incn, follow_exc=False)
+                    # no normal run  entry -> send -> exit  that avoids the increment, and none that counts twice
+                    r1 = w.reach(cut_nodes=incn, follow_exc=False)
                     for sn in [n for n in sendn if n in r1]:
                         if cfgs2.exit in w.reach([v for v, lab in sn.succ if lab != "exc"], cut_nodes=incn, follow_exc=False):
                             counts = False
-                elif any(n in w.reach(after, follow_exc=False) for n in incn):
+                    for i in incn:
+                        if any(j in w.reach([v for v, lab in i.succ if lab != "exc"], follow_exc=False) for j in incn):
+                            counts = False
+                elif any(n in w.reach(follow_exc=False) for n in incn):
                     counts = False
     ctx.check(marks, "relay-early-budget", sc, sc.node, "originator marks relay_early exactly for extend or while its own budget lasts",
               "the originator marks cells relay_early without budget")
     ctx.check(counts, "relay-early-budget", sc, sc.node, "originator counts every relay_early cell it sends (and only those)",
               "originator's relay_early cells are not counted")
-    pc = repo.method("PythonCryptoEndpoint", "process_cell", CR)
-    cfgp = ctx.cfg(pc)
-    bare_extend = _World(pc, cfgp, {k_early: False, k_ext: True})
-    for s in calls(pc, "self.tunnel_community.on_packet"):
-        live = any(n in cfgp.reach() for n in cfgp.nodes_for(s))
-        ctx.check(live and not bare_extend.reaches(s), "relay-early-budget", pc, s,
+    pc = _meth(ctx, "PythonCryptoEndpoint", "process_cell", CR)
+    for ch in ctx.anchor(_site_chains(ctx, pc, "self.tunnel_community.on_packet"), "on_packet in process_cell"):
+        f, s = ch[-1]
+        live, blocked = _blocked_under(ctx, ch, {k_early: False, k_ext: True})
+        ctx.check(live and blocked, "relay-early-budget", f, s,
                   "an extend that arrives without relay_early is dropped", "extend cells are accepted without the relay_early flag")
 
 
 def rule_retry(ctx: Ctx) -> None:
     repo = ctx.repo
-    ot = repo.method("RetryRequestCache", "on_timeout", CA)
+    ot = _meth(ctx, "RetryRequestCache", "on_timeout", CA)
     cfg = ctx.cfg(ot)
-    rm = [c for c in calls(ot) if call_name(c) == "remove_circuit"]
-    ok = False
-    for c in rm:
-        fs = facts_at(cfg, c)
-        if norm(arg(c, 0)) == "self.circuit.circuit_id":
-            ok = True
-    ctx.check(ok, "retry-gives-up", ot, ot.node, "on_timeout removes the circuit when it gives up", "a failed circuit build is never removed")
-    # the retry branch is reachable only with candidates and tries left
-    retry = [c for f2 in ot.module.all_functions if f2.qualname.startswith("RetryRequestCache.on_timeout.") for c in calls(f2) if chain(c.func) == "self.retry_func"]
-    ctx.check(len(retry) == 1 and [norm(a) for a in retry[0].args] == ["self.circuit", "self.candidates", "self.max_tries"], "retry-gives-up", ot, ot.node,
+
+    def gives_up(f, c) -> bool:
+        return call_name(c) == "remove_circuit" and "self.circuit.circuit_id" in _texts(f, arg(c, 0, "circuit_id"))
+    rm = _passes_always(ctx, ot, gives_up, depth=1)
+    ctx.check(bool(rm), "retry-gives-up", ot, ot.node, "on_timeout removes the circuit when it gives up", "a failed circuit build is never removed")
+    # the retry passes the remaining candidates / tries on (closure, or a method of the cache handed to the task)
+    rcls = repo.cls("RetryRequestCache", CA)
+    retry = [c for f2 in ot.module.all_functions if f2.qualname.startswith("RetryRequestCache.") and (f2.qualname.startswith("RetryRequestCache.on_timeout.") or _is_new(f2))
+             for c in calls(f2) if chain(c.func) == "self.retry_func"]
+    retry += [c for c in calls(ot) if chain(c.func) == "self.retry_func"]
+    ctx.check(len(retry) == 1 and [norm(a) for a in retry[0].args] == ["self.circuit", "self.candidates", "self.max_tries"] and not retry[0].keywords,
+              "retry-gives-up", ot, ot.node,
               "retry passes (circuit, remaining candidates, remaining tries)", "retry does not pass the remaining tries on")
-    reg = [c for c in calls(ot) if call_name(c) == "register_anonymous_task"]
+    # with no tries left, or no candidate left, (and the circuit not already closing) nothing is scheduled and the circuit is removed
+    k_closing = _K("eq", "self.circuit.state", "CIRCUIT_STATE_CLOSING")
+    worlds = (("max_tries < 1", {_K("lt", "self.max_tries", "1", integer=True): True, k_closing: False}),
+              ("no candidates", {_K("truthy", "self.candidates"): False, k_closing: False}))
+    reg = [c for c in calls(ot) if call_name(c) in ("register_anonymous_task", "register_task", "ensure_future", "create_task")] + \
+          [c for c in calls(ot) if chain(c.func) == "self.retry_func"]
+    ctx.anchor(reg, "retry scheduling in RetryRequestCache.on_timeout")
     for c in reg:
-        fs = facts_at(cfg, c)
-        ok = any(f.op == "lt" and not f.pos and norm(f.left) == "self.max_tries" and const_value(f.right) == 1 for f in fs) and \
-            any(f.op == "truthy" and f.pos and chain(f.left) == "self.candidates" for f in fs)
-        ctx.check(ok, "retry-gives-up", ot, c, "retry scheduled only while max_tries >= 1 and candidates remain",
-                  "the build retry is scheduled without tries left: it can retry forever", [str(f) for f in fs])
+        bad = [name for name, a in worlds if _World(ot, cfg, a).reaches(c)]
+        ctx.check(not bad, "retry-gives-up", ot, c, "retry scheduled only while max_tries >= 1 and candidates remain",
+                  "the build retry is scheduled without tries left: it can retry forever", [f"reachable with {b}" for b in bad])
+    for name, a in worlds:
+        w = _World(ot, cfg, a)
+        ctx.check(bool(rm) and cfg.exit not in w.reach(cut_nodes=rm, follow_exc=False), "retry-gives-up", ot, ot.node,
+                  f"on_timeout removes the circuit when it gives up ({name})",
+                  f"on_timeout can finish without retrying and without removing the circuit ({name}): the half-built circuit is left to the one-hour age limit")
     for meth in ("send_initial_create", "send_extend"):
-        fi = repo.method("TunnelCommunity", meth, TC)
+        fi = _meth(ctx, "TunnelCommunity", meth, TC)
         for c in calls(fi, "RetryRequestCache"):
-            ok = norm(arg(c, 3)) == "max_tries - 1" and "max_tries" in fi.params() and not local_defs(fi, "max_tries")
+            ok = "max_tries - 1" in _texts(fi, arg(c, 3, "max_tries")) and "max_tries" in fi.params() and not local_defs(fi, "max_tries")
             ctx.check(ok, "retry-gives-up", fi, c, f"{meth}: the new retry cache gets max_tries - 1", f"{meth} does not decrease the remaining tries")
-            ctx.check(norm(arg(c, 5)) == "self.settings.next_hop_timeout", "retry-gives-up", fi, c, "attempt timeout is settings.next_hop_timeout",
+            ctx.check("self.settings.next_hop_timeout" in _texts(fi, arg(c, 5, "timeout")), "retry-gives-up", fi, c, "attempt timeout is settings.next_hop_timeout",
                       "attempt timeout is not the configured one")
     _rule_watchdog(ctx)
-    td = repo.cls("RetryRequestCache", CA).methods.get("timeout_delay")
-    ok = td is not None and any(isinstance(r, ast.Return) and norm(r.value) == "float(self.timeout)" for r in ast.walk(td.node))
+    td = rcls.methods.get("timeout_delay")
+    ok = td is not None and bool(_return_sites(td)) and all(r.value is not None and _texts(td, r.value)[-1] in ("float(self.timeout)", "self.timeout")
+                                                            for r in _return_sites(td))
     ctx.check(ok, "retry-gives-up", td or ot, (td or ot).node, "retry cache times out after the given timeout", "retry cache timeout is not the configured one")
 
 
@@ -618,20 +1646,20 @@ def _rule_watchdog(ctx: Ctx) -> None:
     repo = ctx.repo
     rule = "retry-gives-up"
 
-    def settles(fi: FuncInfo, cfg, rearm) -> list:
-        """CFG nodes of fi after which the circuit is watched again or being removed."""
-        out = []
-        for c in calls(fi):
+    def settle_call(rearm):
+        def is_target(fi: FuncInfo, c: ast.Call) -> bool:
             nm = call_name(c)
             if nm == "remove_circuit":
-                out.extend(cfg.nodes_for(c))
-            elif nm == "add" and (chain(c.func) or "").endswith("request_cache.add"):
+                return True
+            if nm == "add" and (chain(c.func) or "").endswith("request_cache.add"):
                 v = resolve(fi, arg(c, 0))
-                if isinstance(v, ast.Call) and chain(v.func) == "RetryRequestCache":
-                    out.extend(cfg.nodes_for(c))
-            elif nm in rearm and chain(c.func) == f"self.{nm}":
-                out.extend(cfg.nodes_for(c))
-        return out
+                return isinstance(v, ast.Call) and chain(v.func) == "RetryRequestCache"
+            return nm in rearm and chain(c.func) == f"self.{nm}"
+        return is_target
+
+    def settles(fi: FuncInfo, cfg, rearm) -> list:
+        """CFG nodes of fi after which the circuit is watched again or being removed (also through helpers that always do so)."""
+        return _passes_always(ctx, fi, settle_call(rearm), depth=1)
 
     # functions that, on every normal path, arm a new retry cache or remove the circuit
     rearm: set[str] = set()
@@ -647,28 +1675,47 @@ def _rule_watchdog(ctx: Ctx) -> None:
             if cfg.exit not in cfg.reach(cut_nodes=settles(fi, cfg, rearm), follow_exc=False):
                 rearm.add(fi.name)
                 changed = True
+
+    def judge(fi: FuncInfo, site: ast.AST, depth: int = 2):
+        """(ready, followed, verified, facts) for taking the watchdog out at `site` of fi; a NEW private helper is judged at its call sites too."""
+        cfg = ctx.cfg(fi)
+        fs = _facts(fi, cfg, site)
+        ready = any(g.op == "eq" and g.pos and "CIRCUIT_STATE_READY" in (norm(g.left), norm(g.right)) and
+                    (norm(g.left).endswith(".state") or norm(g.right).endswith(".state")) for g in fs)
+        tg = settles(fi, cfg, rearm)
+        followed = bool(tg) and all(cfg.always_followed_by(pn, [t for t in tg if t is not pn]) or pn in tg for pn in cfg.nodes_for(site))
+        ver = [x for v in calls(fi) if call_name(v) == "verify_and_generate_shared_secret" for x in cfg.nodes_for(v)]
+        verified = None if not ver else all(cfg.must_complete(pn, ver) for pn in cfg.nodes_for(site))
+        if depth > 0 and _is_new(fi) and _private(fi) and not (ready or followed) or depth > 0 and _is_new(fi) and _private(fi) and verified is None:
+            users = [(g, c) for m, g, c in repo.callers_of_name(fi.name) if g is not None and g.node is not fi.node]
+            values = [a for m, g, a in repo.attribute_uses(fi.name) if not (isinstance(getattr(a, "_parent", None), ast.Call) and a._parent.func is a)]
+            if values or not users:
+                if not (ready or followed):
+                    raise AnalysisError(f"undecided: {fi.qualname} pops the RetryRequestCache and is reached through a table / callback: its callers cannot be judged")
+            else:
+                sub = [judge(g, c, depth - 1) for g, c in users]
+                ready = ready or all(s[0] for s in sub)
+                followed = followed or all(s[1] for s in sub)
+                if verified is None and any(s[2] is not None for s in sub):
+                    verified = all(s[2] is not False for s in sub)
+                fs = fs + [g for s in sub for g in s[3]]
+        return ready, followed, verified, fs
+
     n = 0
     for fi, c in _retry_cache_pops(repo):
         n += 1
-        cfg = ctx.cfg(fi)
-        if fi.name == "remove_circuit":
+        if fi.name == "remove_circuit" or _only_reached_from(repo, fi, ("TunnelCommunity.remove_circuit",)):
             ctx.instance(rule, fi.where, "retry cache dropped by remove_circuit itself", line=c.lineno)
             continue
-        fs = facts_at(cfg, c)
-        ready = any(f.op == "eq" and f.pos and "CIRCUIT_STATE_READY" in (norm(f.left), norm(f.right)) and
-                    (norm(f.left).endswith(".state") or norm(f.right).endswith(".state")) for f in fs)
-        tg = settles(fi, cfg, rearm)
-        followed = bool(tg) and all(cfg.always_followed_by(pn, [t for t in tg if t is not pn]) or pn in tg for pn in cfg.nodes_for(c))
+        ready, followed, verified, fs = judge(fi, c)
         ctx.check(ready or followed, rule, fi, c,
                   f"{fi.name}: the build watchdog is taken out only for a READY circuit or when a new one is armed / the circuit removed on every continuation",
                   f"{fi.qualname} pops the circuit's RetryRequestCache although a normal continuation neither arms a new one nor removes the circuit: "
                   "a circuit that is still being built loses the only timer that gives up on it (the inactivity sweep skips non-READY circuits), so its "
                   "entry outlives the build timeout and is left to the one-hour age limit",
-                  [str(f) for f in fs])
-        ver = [x for v in calls(fi) if call_name(v) == "verify_and_generate_shared_secret" for x in cfg.nodes_for(v)]
-        if ver:
-            ok = all(cfg.must_complete(pn, ver) for pn in cfg.nodes_for(c))
-            ctx.check(ok, rule, fi, c, f"{fi.name}: the watchdog is released only after the hop's answer was verified",
+                  [str(g) for g in fs])
+        if verified is not None:
+            ctx.check(verified, rule, fi, c, f"{fi.name}: the watchdog is released only after the hop's answer was verified",
                       f"{fi.qualname} pops the RetryRequestCache before verify_and_generate_shared_secret has succeeded: if verification fails or raises, "
                       "nothing times the half-built circuit out any more")
     ctx.floor("retry-gives-up.watchdog-pops", n, 4)
@@ -693,13 +1740,16 @@ def rule_heartbeat(ctx: Ctx) -> None:
         if fi is None or not m.relpath.startswith("ipv8/messaging/anonymization/"):
             continue
         n += 1
-        ctx.check(fi.qualname in HEARTBEAT_CALLERS, "sweep-coverage", fi, c, f"beat_heart in {fi.qualname}: {HEARTBEAT_CALLERS.get(fi.qualname, '?')}",
+        # a NEW private helper / closure that only the receive paths below use acts on their behalf
+        ok = fi.qualname in HEARTBEAT_CALLERS or _only_reached_from(repo, fi, HEARTBEAT_CALLERS)
+        ctx.check(ok, "sweep-coverage", fi, c, f"beat_heart in {fi.qualname}: {HEARTBEAT_CALLERS.get(fi.qualname, 'helper of a receive path')}",
                   f"{fi.qualname} refreshes last_activity (`{norm(c)}`) although it is not a receive path: own traffic (e.g. periodic pings sent every 7.5 s) keeps "
                   "an abandoned entry 'active', so the inactivity sweep never reclaims it")
     ctx.floor("sweep-coverage.heartbeat-sites", n, 5)
+    writers = ("RoutingObject.__init__", "RoutingObject.beat_heart")
     for m, fi, a in repo.attribute_uses("last_activity"):
         if isinstance(a.ctx, ast.Store) and fi is not None:
-            ctx.check(fi.qualname in ("RoutingObject.__init__", "RoutingObject.beat_heart"), "sweep-coverage", fi, enclosing_stmt(a),
+            ctx.check(fi.qualname in writers or _only_reached_from(repo, fi, writers), "sweep-coverage", fi, enclosing_stmt(a),
                       "last_activity written only by the constructor and beat_heart", "last_activity is written outside beat_heart")
     rule_transports_stored(ctx)
 
@@ -707,15 +1757,22 @@ def rule_heartbeat(ctx: Ctx) -> None:
 def rule_transports_stored(ctx: Ctx, rule: str = "remove-removes") -> None:
     """Opened outside sockets are stored on the exit socket in the statement that opens them (so close() can always find them)."""
     repo = ctx.repo
-    for fi in [f for f in repo.module("ipv8/messaging/anonymization/exit_socket.py").all_functions if f.qualname.startswith("TunnelExitSocket.enable")]:
+    n = 0
+    for fi0 in repo.module("ipv8/messaging/anonymization/exit_socket.py").all_functions:
+        if not fi0.qualname.startswith("TunnelExitSocket."):
+            continue
+        fi = _view(ctx, fi0)
         for c in calls(fi):
-            if call_name(c) == "open" and isinstance(c.func.value, ast.Call) and chain(c.func.value.func) == "TunnelProtocol":
+            base = resolve(fi, c.func.value) if call_name(c) == "open" and isinstance(c.func, ast.Attribute) else None
+            if isinstance(base, ast.Call) and chain(base.func) == "TunnelProtocol":
+                n += 1
                 st = enclosing_stmt(c)
                 ok = isinstance(st, ast.Assign) and len(st.targets) == 1 and (chain(st.targets[0]) or "").startswith("self.transport_") and \
                     isinstance(st.value, ast.Await) and st.value.value is c
                 ctx.check(ok, rule, fi, st, "each opened transport is assigned to self.transport_* in the statement that awaits its open()",
                           "an opened outside socket is held only in a local/gather result until later: if the task is cancelled (circuit removed, unload) or the other "
                           "open fails, close() never sees it and the UDP socket leaks")
+    ctx.floor(f"{rule}.transport-opens", n, 2)
 
 
 def run(ctx: Ctx) -> None:
@@ -749,6 +1806,15 @@ WITNESSES = [
      "new": "            await exit_socket.shutdown_task_manager()"},
     {"name": "close forgets ipv6 transport", "file": "ipv8/messaging/anonymization/exit_socket.py", "rule": "remove-removes",
      "old": "        if self.transport_ipv6:\n            self.transport_ipv6.close()\n            self.transport_ipv6 = None", "new": "        self.transport_ipv6 = None"},
+    {"name": "exit entry popped outside remove_exit_socket", "file": TC, "rule": "remove-removes",
+     "old": "            self.remove_exit_socket(request.from_circuit_id, remove_now=True)\n",
+     "new": "            dropped = self.exit_sockets.pop(request.from_circuit_id)\n            self.register_anonymous_task(\"shutdown_exit_socket\", dropped.shutdown_task_manager)\n"},
+    {"name": "join limit decided on a stale spelling (admits at the limit)", "file": TC, "rule": "join-limit",
+     "old": "if self.settings.max_joined_circuits <= len(self.relay_from_to) + len(self.exit_sockets):",
+     "new": "if self.settings.max_joined_circuits < len(self.relay_from_to) + len(self.exit_sockets):"},
+    {"name": "retry gives up without removing the circuit", "file": CA, "rule": "retry-gives-up",
+     "old": "            self.community.remove_circuit(self.circuit.circuit_id, reason)\n            return\n",
+     "new": "            if self.candidates:\n                self.community.remove_circuit(self.circuit.circuit_id, reason)\n            return\n"},
     {"name": "destroy bounced instead of forwarded", "file": TC, "rule": "destroy-propagates",
      "old": "            self.remove_relay(circuit_id, f\"got destroy with reason {payload.reason}\", destroy=payload.reason)\n            self.remove_relay(cast(\"RelayRoute\", next_relay).circuit_id, f\"got destroy with reason {payload.reason}\")",
      "new": "            self.remove_relay(circuit_id, f\"got destroy with reason {payload.reason}\")\n            self.remove_relay(cast(\"RelayRoute\", next_relay).circuit_id, f\"got destroy with reason {payload.reason}\", destroy=payload.reason)"},
